@@ -9,7 +9,10 @@
   Stage 4 (`GDoc`: paragraphs, ATX headings, thematic breaks): `genGDoc`, `gfamilies`, ops `ggen` / `genum` / `gcount`.
   Stage 5 (`HDoc`: the same plus fenced code blocks): `genHDoc`, `hfamilies`, ops `hgen` / `henum` / `hcount`.
   Stage 6 (`KDoc`: the same blocks without a blank line in between where allowed): `genKDoc`, `kfamilies`, ops `kgen` /
-  `kenum` / `kcount`.
+  `kenum` / `kcount`. Stage 7 (the same documents, `trail` forced to 0, without the final line feed): ops `egen` /
+  `eenum` / `ecount`. Stage 8 (`RDoc`: paragraphs whose lines contain code spans): `genRDoc`, `rfamilies`, ops `rgen` /
+  `renum` / `rcount`. Stage 9 (`BDoc`: paragraphs whose lines may end in a backslash hard line break): `genBDoc`,
+  `bfamilies`, ops `bgen` / `benum` / `bcount`.
 -/
 import Driver.Common
 import GM.Spec.CMFrag
@@ -594,7 +597,349 @@ def specAnswerK (d : KDoc) : String :=
   else if !wellFormed e then "fail:spec-wellformed"
   else "ok"
 
-def withDoc (k : FDoc → String) (kg : GDoc → String) (kh : HDoc → String) (kk : KDoc → String) : List String → String
+/-! stage 7: the stage-6 documents with `trail` forced to 0, written without the final line feed -/
+
+def noTrailE (d : KDoc) : KDoc := { d with trail := 0 }
+
+def answerE (d : KDoc) : String :=
+  if kfragEB d then s!"{hexOfBytes (spellKE d)} {hexOfBytes (expectedK d)}" else "skip"
+
+def modelAnswerE (d : KDoc) : String :=
+  if !kfragEB d then "skip" else
+  match GM.Convert.convertCore [] ropts (spellKE d) with
+  | .ok h => if h == expectedK d then "ok" else s!"fail:model-differs {hexOfBytes h}"
+  | .error e => s!"fail:model-differs {e.str}"
+
+def specAnswerE (d : KDoc) : String :=
+  if !kfragEB d then "skip" else
+  let e := kembedE d
+  if expectedK d != expected e then s!"fail:spec-expected {hexOfBytes (expected e)}"
+  else if knoExtraBlanks d && spellKE d != spell e then s!"fail:spec-spell {hexOfBytes (spell e)}"
+  else if !wellFormed e then "fail:spec-wellformed"
+  else "ok"
+
+/-! ## stage 8: code spans inside the text lines (`RDoc`, paragraphs only) -/
+
+/-- characters that are suspicious directly next to a code-span delimiter, in a spelling that keeps them text:
+    backtick and backslash (written with a backslash), both as references, space, `*`, `_`, `[`, `<`, `&` -/
+def edgeChars : List TChar :=
+  [lit 96, lit 92, ⟨96, .bs⟩, ⟨92, .bs⟩, ⟨96, .named⟩, ⟨92, .named⟩, ⟨96, .dec 0⟩, ⟨92, .hex 0 false false⟩,
+   lit 32, lit 42, lit 95, lit 91, lit 60, lit 38, ⟨33, .bs⟩, lit 93, lit 62, lit 35]
+
+/-- 0..4 steps of `genPiece`, with probability 25 % an `edgeChars` character at the front / at the end -/
+def genEdgeText (front back : Bool) : G (List TChar) := do
+  let mid ← genPieces (← below 5)
+  let f ← if front && (← chance 25) then (do return [← pickL edgeChars]) else pure []
+  let b ← if back && (← chance 25) then (do return [← pickL edgeChars]) else pure []
+  return f ++ mid ++ b
+
+def genCodeSpan : G RAtom := do return .code (← genInfo (1 + (← below 6)))
+
+/-- `n` further code spans, each followed by a text atom (the last one ends with a literal letter or digit) -/
+def genRTail : Nat → G (List RAtom)
+  | 0 => return []
+  | n + 1 => do
+    let c ← genCodeSpan
+    let t ← genEdgeText true (n != 0)
+    let t ← if n == 0 then (do return t ++ [lit (← pickL alnums)])
+      else if t.isEmpty then (do return [lit (← pickL (32 :: alnums))]) else pure t
+    let rest ← genRTail n
+    return c :: .txt t :: rest
+
+/-- a line with 1..3 code spans -/
+def genRLine : G RLine := do
+  let a := lit (← pickL letters)
+  let t ← genEdgeText false true
+  let rest ← genRTail (1 + (← below 3))
+  return .txt (a :: t) :: rest
+
+def genRLines : Nat → G (List RLine)
+  | 0 => return []
+  | n + 1 => do
+    let l ← genRLine
+    let rest ← genRLines n
+    return l :: rest
+
+def genRItems : Nat → G (List RItem)
+  | 0 => return []
+  | n + 1 => do
+    let gap ← below 3
+    let ls ← genRLines (1 + (← below 3))
+    let rest ← genRItems n
+    return { gap := gap, lines := ls } :: rest
+
+def genRDocM (size : Nat) : G RDoc := do
+  let n ← below (max size 1)
+  let items ← genRItems (n + 1)
+  let trail ← below 3
+  return { items := items, trail := trail }
+
+def genRDoc (seed size : Nat) : RDoc :=
+  (genRDocM size |>.run { s := UInt64.ofNat (seed * 2654435761 + size + 8008) }).1
+
+structure RFamily where
+  count : Nat
+  doc : Nat → RDoc
+
+def oneRLine (l : RLine) : RDoc := { items := [{ lines := [l] }] }
+
+def rcode (s : String) : RAtom := .code (strBytes s)
+
+def rtxt (s : String) : RAtom := .txt (lits s)
+
+/-- lines of the fixed shapes: `a`x`b`, spaces around the span, two spans (text / a space between them), the span as
+    second and as last-but-one atom of a longer line, longer contents, digits only, escaped output next to a span -/
+def rlinePool : List RLine :=
+  [ [rtxt "a", rcode "x", rtxt "b"],
+    [rtxt "a ", rcode "x", rtxt " b"],
+    [rtxt "a", rcode "x", rtxt "b", rcode "y", rtxt "c"],
+    [rtxt "a", rcode "x", rtxt " ", rcode "y", rtxt "c"],
+    [rtxt "a ", rcode "x1", rtxt " b ", rcode "Yz", rtxt " c ", rcode "q", rtxt " d"],
+    [rtxt "ab cd", rcode "code", rtxt "e"],
+    [rtxt "a", rcode "code", rtxt "bc de"],
+    [rtxt "a", rcode "123456", rtxt "7"],
+    [rtxt "a", rcode "x", .txt [⟨38, .named⟩, lit 98]],
+    [.txt [lit 97, ⟨60, .named⟩], rcode "x", .txt [⟨62, .lit⟩, lit 98]],
+    [.txt [lit 97, lit 96], rcode "x", .txt [lit 96, lit 98]],
+    [.txt [lit 97, lit 92], rcode "x", .txt [lit 92, lit 98]],
+    [rtxt "a", rcode "x", .txt [lit 96], rcode "y", rtxt "c"],
+    [rtxt "a", rcode "x", .txt [lit 92], rcode "y", rtxt "c"],
+    [rtxt "g"] ]
+
+def poolRLine (k : Nat) : RLine := rlinePool.getD (k % rlinePool.length) [rtxt "q"]
+
+/-- (r-a) every pool line alone × gap 0..1 × trail 0..1 -/
+def rfamLines : RFamily where
+  count := rlinePool.length * 4
+  doc i := { items := [{ gap := i / 2 % 2, lines := [poolRLine (i / 4)] }], trail := i % 2 }
+
+def spellings8 (c : UInt8) : List TChar :=
+  [⟨c, .lit⟩, ⟨c, .bs⟩, ⟨c, .dec 0⟩, ⟨c, .dec 3⟩, ⟨c, .hex 0 false false⟩, ⟨c, .hex 2 true true⟩, ⟨c, .named⟩]
+
+/-- (r-b) each of the 95 printable characters in 7 spellings directly BEFORE (`a` X `x` `z`) and directly AFTER
+    (`a` `x` X `z`) a code span; a literal `!` is outside the fragment and answered `skip` -/
+def rfamEdges : RFamily where
+  count := 95 * 7 * 2
+  doc i :=
+    let c := UInt8.ofNat (32 + i / 14)
+    let t := (spellings8 c).getD (i / 2 % 7) (lit 120)
+    if i % 2 == 0 then oneRLine [.txt [lit 97, t], rcode "x", rtxt "z"]
+    else oneRLine [rtxt "a", rcode "x", .txt [t, lit 122]]
+
+/-- (r-c) each of the 95 printable characters in 7 spellings ALONE between two code spans -/
+def rfamBetween : RFamily where
+  count := 95 * 7
+  doc i :=
+    let c := UInt8.ofNat (32 + i / 7)
+    let t := (spellings8 c).getD (i % 7) (lit 120)
+    oneRLine [rtxt "a", rcode "x", .txt [t], rcode "y", rtxt "z"]
+
+/-- paragraphs from base-6 digits: digit % 3 + 1 lines, digit / 3 extra blank lines in front -/
+def rshapeItems (off : Nat) : Nat → Nat → Nat → List RItem
+  | 0, _, _ => []
+  | n + 1, p, code =>
+    let d := code % 6
+    let lines := (List.range (d % 3 + 1)).map fun j => poolRLine (off + 3 * p + j)
+    { gap := d / 3, lines := lines } :: rshapeItems off n (p + 1) (code / 6)
+
+/-- (r-d) all shapes of `n` paragraphs: 1..3 lines each × gap 0..1 each × trail 0..1 × 5 rotations of the line pool -/
+def rfamShapes (n : Nat) : RFamily where
+  count := 6 ^ n * 10
+  doc i := { items := rshapeItems (i / 2 % 5 * 3) n 0 (i / 10), trail := i % 2 }
+
+/-- (r-e) the empty document and blank lines only -/
+def rfamEmpty : RFamily where
+  count := 3
+  doc i := { items := [], trail := i }
+
+def rfamilies : List RFamily := [rfamLines, rfamEdges, rfamBetween, rfamShapes 1, rfamShapes 2, rfamEmpty]
+
+def countR : Nat := rfamilies.foldl (fun acc f => acc + f.count) 0
+
+def enumRIn : List RFamily → Nat → Option RDoc
+  | [], _ => none
+  | f :: rest, i => if i < f.count then some (f.doc i) else enumRIn rest (i - f.count)
+
+def enumR (i : Nat) : Option RDoc := enumRIn rfamilies i
+
+def answerR (d : RDoc) : String :=
+  if rfragB d then s!"{hexOfBytes (spellR d)} {hexOfBytes (expectedR d)}" else "skip"
+
+def modelAnswerR (d : RDoc) : String :=
+  if !rfragB d then "skip" else
+  match GM.Convert.convertCore [] ropts (spellR d) with
+  | .ok h => if h == expectedR d then "ok" else s!"fail:model-differs {hexOfBytes h}"
+  | .error e => s!"fail:model-differs {e.str}"
+
+def specAnswerR (d : RDoc) : String :=
+  if !rfragB d then "skip" else
+  let e := rembed d
+  if expectedR d != expected e then s!"fail:spec-expected {hexOfBytes (expected e)}"
+  else if rnoExtraBlanks d && !d.items.isEmpty && spellR d != spell e then s!"fail:spec-spell {hexOfBytes (spell e)}"
+  else if !wellFormed e then "fail:spec-wellformed"
+  else "ok"
+
+/-- the stage-8 ops; `none` for every other op -/
+def withRDoc (k : RDoc → String) : List String → Option String
+  | ["rgen", s, z] => some (nat s fun seed => nat z fun size => k (genRDoc seed size))
+  | ["renum", i] => some (nat i fun i =>
+      match enumR i with
+      | none => "end"
+      | some d => k d)
+  | _ => none
+
+/-! ## stage 9: hard line breaks written with a backslash (`BDoc`, paragraphs only) -/
+
+/-- `n` lines as `genLine`; every line but the last is hard with probability 50 % -/
+def genBLines : Nat → G (List BLine)
+  | 0 => return []
+  | n + 1 => do
+    let l ← genLine
+    let hard ← if n == 0 then pure false else chance 50
+    let rest ← genBLines n
+    return { cs := l, hard := hard } :: rest
+
+def genBItems : Nat → G (List BItem)
+  | 0 => return []
+  | n + 1 => do
+    let gap ← below 4
+    let ls ← genBLines (1 + (← below 4))
+    let rest ← genBItems n
+    return { gap := gap, lines := ls } :: rest
+
+def genBDocM (size : Nat) : G BDoc := do
+  let n ← below (max size 1)
+  let items ← genBItems (n + 1)
+  let trail ← below 4
+  return { items := items, trail := trail }
+
+def genBDoc (seed size : Nat) : BDoc :=
+  (genBDocM size |>.run { s := UInt64.ofNat (seed * 2654435761 + size + 9009) }).1
+
+structure BFamily where
+  count : Nat
+  doc : Nat → BDoc
+
+def onePara (ls : List BLine) : BDoc := { items := [{ lines := ls }] }
+
+def bsoft (l : FLine) : BLine := { cs := l }
+
+def bhard (l : FLine) : BLine := { cs := l, hard := true }
+
+/-- (b-a) the LAST character of a hard line: each of the 95 printable characters in 7 spellings, as the end of the
+    first line of two (`a` X `\` / `cd`), of the middle line of three, and of two hard lines behind each other; only a
+    letter or digit written literally is inside the fragment (`lastOK`), the other indices are answered `skip` -/
+def bfamLast : BFamily where
+  count := 95 * 7 * 3
+  doc i :=
+    let c := UInt8.ofNat (32 + i / 21)
+    let t := (spellings8 c).getD (i / 3 % 7) (lit 120)
+    match i % 3 with
+    | 0 => onePara [bhard [lit 97, t], bsoft (lits "cd")]
+    | 1 => onePara [bsoft (lits "ab"), bhard [lit 99, t], bsoft (lits "ef")]
+    | _ => onePara [bhard [lit 97, t], bhard [lit 98, t], bsoft (lits "g")]
+
+/-- lines with the flags from the bits of `code` -/
+def bflagLines (off : Nat) : Nat → Nat → Nat → List BLine
+  | 0, _, _ => []
+  | n + 1, j, code => { cs := poolLine (off + j), hard := code % 2 == 1 } :: bflagLines off n (j + 1) (code / 2)
+
+/-- (b-b) one paragraph of 2 and of 3 lines × every combination of flags on ALL lines (a hard last line is outside
+    the fragment: `skip`) × 4 rotations of the line pool × gap 0..1 × trail 0..1 -/
+def bfamFlags : BFamily where
+  count := (4 + 8) * 4 * 4
+  doc i :=
+    let j := i / 16
+    let ls := if j < 4 then bflagLines (i / 4 % 4) 2 0 j else bflagLines (i / 4 % 4) 3 0 (j - 4)
+    { items := [{ gap := i / 2 % 2, lines := ls }], trail := i % 2 }
+
+/-- (b-c) two paragraphs of two lines × the flags of their first lines × gap 0..1 in between × 4 rotations; and a
+    paragraph of one line in front of / behind a paragraph with a hard line -/
+def bfamParas : BFamily where
+  count := 4 * 2 * 4 + 8
+  doc i :=
+    if i < 32 then
+      let r := i / 8
+      { items := [{ lines := [{ cs := poolLine r, hard := i % 2 == 1 }, bsoft (poolLine (r + 1))] },
+                  { gap := i / 4 % 2, lines := [{ cs := poolLine (r + 2), hard := i / 2 % 2 == 1 }, bsoft (poolLine (r + 3))] }] }
+    else
+      let k := i - 32
+      let p1 : BItem := { lines := [bsoft (poolLine k)] }
+      let p2 : BItem := { lines := [bhard (poolLine (k + 1)), bsoft (poolLine (k + 2))] }
+      if k % 2 == 0 then { items := [p1, p2] } else { items := [p2, p1], trail := 1 }
+
+/-- (b-d) hard lines of one character (each letter) and of two characters (each letter × each letter or digit) -/
+def bfamShort : BFamily where
+  count := letters.length + letters.length * alnums.length
+  doc i :=
+    if i < letters.length then onePara [bhard [lit (letters.getD i 97)], bsoft (lits "cd")]
+    else
+      let k := i - letters.length
+      onePara [bhard [lit (letters.getD (k / alnums.length) 97), lit (alnums.getD (k % alnums.length) 97)], bsoft (lits "cd")]
+
+/-- (b-e) the character in front of the last one of a hard line: `a` N `z` `\` and `a` N `1` `\` for every notable
+    character (among them the escaped backslash: `a\\z\`), and two of them: `a` N M `z` `\` -/
+def bfamBefore : BFamily where
+  count := notable.length * 2 + notable.length * notable.length
+  doc i :=
+    if i < notable.length * 2 then
+      onePara [bhard [lit 97, notable.getD (i / 2) (lit 120), lit (if i % 2 == 0 then 122 else 49)], bsoft (lits "cd")]
+    else
+      let k := i - notable.length * 2
+      onePara [bhard [lit 97, notable.getD (k / notable.length) (lit 120), notable.getD (k % notable.length) (lit 120), lit 122],
+               bsoft (lits "cd")]
+
+/-- (b-f) the line behind a hard line: one letter (each letter), and a letter followed by each notable character -/
+def bfamNext : BFamily where
+  count := letters.length + notable.length
+  doc i :=
+    if i < letters.length then onePara [bhard (lits "ab"), bsoft [lit (letters.getD i 97)]]
+    else onePara [bhard (lits "ab"), bsoft [lit 99, notable.getD (i - letters.length) (lit 120), lit 100]]
+
+/-- (b-g) the empty document and blank lines only -/
+def bfamEmpty : BFamily where
+  count := 3
+  doc i := { items := [], trail := i }
+
+def bfamilies : List BFamily := [bfamLast, bfamFlags, bfamParas, bfamShort, bfamBefore, bfamNext, bfamEmpty]
+
+def countB : Nat := bfamilies.foldl (fun acc f => acc + f.count) 0
+
+def enumBIn : List BFamily → Nat → Option BDoc
+  | [], _ => none
+  | f :: rest, i => if i < f.count then some (f.doc i) else enumBIn rest (i - f.count)
+
+def enumB (i : Nat) : Option BDoc := enumBIn bfamilies i
+
+def answerB (d : BDoc) : String :=
+  if bfragB d then s!"{hexOfBytes (spellBD d)} {hexOfBytes (expectedBD d)}" else "skip"
+
+def modelAnswerB (d : BDoc) : String :=
+  if !bfragB d then "skip" else
+  match GM.Convert.convertCore [] ropts (spellBD d) with
+  | .ok h => if h == expectedBD d then "ok" else s!"fail:model-differs {hexOfBytes h}"
+  | .error e => s!"fail:model-differs {e.str}"
+
+def specAnswerB (d : BDoc) : String :=
+  if !bfragB d then "skip" else
+  let e := bembed d
+  if expectedBD d != expected e then s!"fail:spec-expected {hexOfBytes (expected e)}"
+  else if bnoExtraBlanks d && !d.items.isEmpty && spellBD d != spell e then s!"fail:spec-spell {hexOfBytes (spell e)}"
+  else if !wellFormed e then "fail:spec-wellformed"
+  else "ok"
+
+/-- the stage-9 ops; `none` for every other op -/
+def withBDoc (k : BDoc → String) : List String → Option String
+  | ["bgen", s, z] => some (nat s fun seed => nat z fun size => k (genBDoc seed size))
+  | ["benum", i] => some (nat i fun i =>
+      match enumB i with
+      | none => "end"
+      | some d => k d)
+  | _ => none
+
+
+def withDoc (k : FDoc → String) (kg : GDoc → String) (kh : HDoc → String) (kk : KDoc → String)
+    (ke : KDoc → String) : List String → String
   | ["gen", s, z] => nat s fun seed => nat z fun size => k (genFrag seed size)
   | ["enum", i] => nat i fun i =>
       match enumDoc i with
@@ -615,7 +960,1682 @@ def withDoc (k : FDoc → String) (kg : GDoc → String) (kh : HDoc → String) 
       match enumK i with
       | none => "end"
       | some d => kk d
+  | ["egen", s, z] => nat s fun seed => nat z fun size => ke (noTrailE (genKDoc seed size))
+  | ["eenum", i] => nat i fun i =>
+      match enumK i with
+      | none => "end"
+      | some d => ke (noTrailE d)
   | _ => bad
+
+/-! ## stage 10: a stage-6 document inside one block quote (`KDoc` with `qfragB`, `spellQ`, `expectedQ`, `qembed`) -/
+
+/-- a character in a spelling whose source bytes are all `qcleanByte`: the character as it is when its spelling is
+    clean already, else its named reference when that one is clean (`&ast;`, `&plus;`, `&lsqb;`), else a literal `x`
+    (digits, `-`, numeric references) -/
+def qcleanT (t : TChar) : TChar :=
+  if (spellChar t).all qcleanByte then t
+  else if (spellChar ⟨t.c, .named⟩).all qcleanByte then ⟨t.c, .named⟩
+  else lit 120
+
+def qcleanBytes (l : Bytes) : Bytes := l.map fun c => if qcleanByte c then c else 120
+
+/-- thematic breaks are written with `_` -/
+def qcleanBlock : HBlock → HBlock
+  | .base (.para lines) => .base (.para (lines.map (·.map qcleanT)))
+  | .base (.heading level text) => .base (.heading level (text.map qcleanT))
+  | .base (.thematic _ n) => .base (.thematic 2 n)
+  | .fcode tilde n info lines => .fcode tilde n (qcleanBytes info) (lines.map qcleanBytes)
+
+/-- the stage-6 document with every excluded source byte replaced (block kinds, line counts, blank lines unchanged) -/
+def qcleanDoc (d : KDoc) : KDoc := { d with items := d.items.map fun it => { it with block := qcleanBlock it.block } }
+
+def genQDoc (seed size : Nat) : KDoc := qcleanDoc (genKDoc seed size)
+
+/-- (q-a) one block of every stage-6 kind × 0..2 blank lines in front × 0..2 behind -/
+def qfamEdge : KFamily where
+  count := 9 * 3 * 3
+  doc i := { items := [{ sep := i / 3 % 3, block := kkindBlock 0 (i / 9) }], trail := i % 3 }
+
+/-- (q-b) fences with empty content lines, content lines that look like block starts or quote markers -/
+def qcodePool : List (List Bytes) :=
+  [ [[]], [[], []], [strBytes "x", [], strBytes "y"], [strBytes "> q"], [strBytes ">"], [strBytes "# h"], [strBytes "a "],
+    [strBytes "<a&b>"], [strBytes "___"], [[], strBytes "x"], [strBytes "x", []] ]
+
+def qfamCode : KFamily where
+  count := 2 * qcodePool.length * 2 * 2
+  doc i :=
+    let tilde := i / 2 % 2 == 1
+    let lines := qcodePool.getD (i / 4 % qcodePool.length) []
+    let pre : List KItem := if i / (4 * qcodePool.length) % 2 == 1 then [{ sep := 0, block := .base (.para [poolLine 0]) }] else []
+    { items := pre ++ [{ sep := 0, block := .fcode tilde 0 [] lines }], trail := i % 2 }
+
+def qfamilies : List KFamily := kfamilies ++ [qfamEdge, qfamCode]
+
+def countQ : Nat := qfamilies.foldl (fun acc f => acc + f.count) 0
+
+def enumQ (i : Nat) : Option KDoc := (enumKIn qfamilies i).map qcleanDoc
+
+def answerQ (d : KDoc) : String :=
+  if qfragB d then s!"{hexOfBytes (spellQ d)} {hexOfBytes (expectedQ d)}" else "skip"
+
+def modelAnswerQ (d : KDoc) : String :=
+  if !qfragB d then "skip" else
+  match GM.Convert.convertCore [] ropts (spellQ d) with
+  | .ok h => if h == expectedQ d then "ok" else s!"fail:model-differs {hexOfBytes h}"
+  | .error e => s!"fail:model-differs {e.str}"
+
+def specAnswerQ (d : KDoc) : String :=
+  if !qfragB d then "skip" else
+  let e := qembed d
+  if expectedQ d != expected e then s!"fail:spec-expected {hexOfBytes (expected e)}"
+  else if !wellFormed e then "fail:spec-wellformed"
+  else "ok"
+
+/-- the source with every line `"> "` (marker, space, nothing else) written `">"` -/
+def qtightBlank : Bytes → Bool → Bytes
+  | [], _ => []
+  | 62 :: 32 :: 10 :: cs, true => 62 :: 10 :: qtightBlank cs true
+  | c :: cs, _ => c :: qtightBlank cs (c == 10)
+
+/-- how the spec model spells the document (`spell (qembed d)`) compared with `spellQ d`: `same`; `blank` = the same
+    except that blank lines inside the quote are `>` instead of `> `; `extra` = the document has blank lines the spec
+    model does not spell (not `knoExtraBlanks`); else `differs` -/
+def spellAnswerQ (d : KDoc) : String :=
+  if !qfragB d then "skip" else
+  let s := spell (qembed d)
+  if s == spellQ d then "same"
+  else if s == qtightBlank (spellQ d) true then "blank"
+  else if !knoExtraBlanks d then "extra"
+  else s!"differs {hexOfBytes s}"
+
+/-- the stage-10 ops; `none` for every other op -/
+def withQDoc (k : KDoc → String) : List String → Option String
+  | ["qgen", s, z] => some (nat s fun seed => nat z fun size => k (genQDoc seed size))
+  | ["qenum", i] => some (nat i fun i =>
+      match enumQ i with
+      | none => "end"
+      | some d => k d)
+  | _ => none
+
+/-! ## stage 10 without the final line feed (`KDoc` with `qfragEB`, `spellQE`, `expectedQ`; `trail` forced to 0) -/
+
+/-- the spec-model document with the choice "no final line ending" -/
+def qembedE (d : KDoc) : Doc := { qembed d with finalNewline := false }
+
+def answerQE (d : KDoc) : String :=
+  if qfragEB d then s!"{hexOfBytes (spellQE d)} {hexOfBytes (expectedQ d)}" else "skip"
+
+def modelAnswerQE (d : KDoc) : String :=
+  if !qfragEB d then "skip" else
+  match GM.Convert.convertCore [] ropts (spellQE d) with
+  | .ok h => if h == expectedQ d then "ok" else s!"fail:model-differs {hexOfBytes h}"
+  | .error e => s!"fail:model-differs {e.str}"
+
+def specAnswerQE (d : KDoc) : String :=
+  if !qfragEB d then "skip" else
+  let e := qembedE d
+  if expectedQ d != expected e then s!"fail:spec-expected {hexOfBytes (expected e)}"
+  else if !wellFormed e then "fail:spec-wellformed"
+  else "ok"
+
+/-- the ops of stage 10 without the final line feed (the documents of `qgen` / `qenum` with `trail` forced to 0);
+    `none` for every other op -/
+def withQEDoc (k : KDoc → String) : List String → Option String
+  | ["qegen", s, z] => some (nat s fun seed => nat z fun size => k (noTrailE (genQDoc seed size)))
+  | ["qeenum", i] => some (nat i fun i =>
+      match enumQ i with
+      | none => "end"
+      | some d => k (noTrailE d))
+  | _ => none
+
+/-! ## stage 11: simple emphasis next to code spans (`EDoc`, paragraphs only) -/
+
+/-- a code span 30 %, `*x*` 35 %, `**x**` 35 %; content 1..6 letters and digits -/
+def genEmAtom : G EAtomS := do
+  let c ← genInfo (1 + (← below 6))
+  let r ← below 100
+  if r < 30 then return .code c else if r < 65 then return .em c else return .strong c
+
+/-- `n` further atoms that are not text, each followed by a text atom (the last one ends with a literal letter or
+    digit) -/
+def genEmTail : Nat → G (List EAtomS)
+  | 0 => return []
+  | n + 1 => do
+    let c ← genEmAtom
+    let t ← genEdgeText true (n != 0)
+    let t ← if n == 0 then (do return t ++ [lit (← pickL alnums)])
+      else if t.isEmpty then (do return [lit (← pickL (32 :: alnums))]) else pure t
+    let rest ← genEmTail n
+    return c :: .txt t :: rest
+
+/-- a line with 1..3 atoms that are not text -/
+def genEmLine : G ELine := do
+  let a := lit (← pickL letters)
+  let t ← genEdgeText false true
+  let rest ← genEmTail (1 + (← below 3))
+  return .txt (a :: t) :: rest
+
+def genEmLines : Nat → G (List ELine)
+  | 0 => return []
+  | n + 1 => do
+    let l ← genEmLine
+    let rest ← genEmLines n
+    return l :: rest
+
+def genEmItems : Nat → G (List EItem)
+  | 0 => return []
+  | n + 1 => do
+    let gap ← below 3
+    let ls ← genEmLines (1 + (← below 3))
+    let rest ← genEmItems n
+    return { gap := gap, lines := ls } :: rest
+
+def genEmDocM (size : Nat) : G EDoc := do
+  let n ← below (max size 1)
+  let items ← genEmItems (n + 1)
+  let trail ← below 3
+  return { items := items, trail := trail }
+
+def genEmDoc (seed size : Nat) : EDoc :=
+  (genEmDocM size |>.run { s := UInt64.ofNat (seed * 2654435761 + size + 11011) }).1
+
+structure EmFamily where
+  count : Nat
+  doc : Nat → EDoc
+
+def oneEmLine (l : ELine) : EDoc := { items := [{ lines := [l] }] }
+
+def emtxt (s : String) : EAtomS := .txt (lits s)
+def emcode (s : String) : EAtomS := .code (strBytes s)
+def emem (s : String) : EAtomS := .em (strBytes s)
+def emstrong (s : String) : EAtomS := .strong (strBytes s)
+
+/-- the four kinds of atoms that are not text, by index: `*x*`, `**x**`, a code span, `*xy*` -/
+def emKind (k : Nat) (s : String) : EAtomS :=
+  match k % 4 with
+  | 0 => emem s
+  | 1 => emstrong s
+  | 2 => emcode s
+  | _ => emem (s ++ "y")
+
+/-- lines of the fixed shapes: emphasis touching text on both sides, between spaces, two emphases of either kind,
+    emphasis next to a code span with one character between them, longer contents, digits only, an escaped `*`
+    directly outside the delimiters -/
+def emlinePool : List ELine :=
+  [ [emtxt "a", emem "b", emtxt "c"],
+    [emtxt "a", emstrong "b", emtxt "c"],
+    [emtxt "a ", emem "b", emtxt " c"],
+    [emtxt "a ", emstrong "b", emtxt " c"],
+    [emtxt "a", emem "b", emtxt "c", emem "d", emtxt "e"],
+    [emtxt "a", emem "b", emtxt "c", emstrong "d", emtxt "e"],
+    [emtxt "a", emstrong "b", emtxt "c", emem "d", emtxt "e"],
+    [emtxt "a", emstrong "b", emtxt "c", emstrong "d", emtxt "e"],
+    [emtxt "a", emem "b", emtxt " ", emem "d", emtxt "e"],
+    [emtxt "a", emstrong "b", emtxt " ", emem "d", emtxt "e"],
+    [emtxt "a", emem "b", emtxt "c", emcode "d", emtxt "e"],
+    [emtxt "a", emcode "b", emtxt "c", emem "d", emtxt "e"],
+    [emtxt "a", emstrong "b", emtxt "c", emcode "d", emtxt "e"],
+    [emtxt "a", emcode "b", emtxt " ", emstrong "d", emtxt "e"],
+    [emtxt "a ", emem "x1", emtxt " b ", emstrong "Yz", emtxt " c ", emcode "q", emtxt " d"],
+    [emtxt "ab cd", emem "word", emtxt "e"],
+    [emtxt "a", emstrong "123456", emtxt "7"],
+    [.txt [lit 97, lit 42], emem "x", .txt [lit 42, lit 98]],
+    [.txt [lit 97, lit 42], emstrong "x", .txt [lit 42, lit 98]],
+    [.txt [lit 97, lit 92], emem "x", .txt [lit 92, lit 98]],
+    [.txt [lit 97, lit 95], emem "x", .txt [lit 95, lit 98]],
+    [emtxt "a", emem "x", .txt [lit 42], emem "y", emtxt "c"],
+    [emtxt "a", emem "x", .txt [lit 42], emstrong "y", emtxt "c"],
+    [emtxt "a", emstrong "x", .txt [lit 42], emem "y", emtxt "c"],
+    [emtxt "a", emem "b", emtxt "c", emem "d", emtxt "e", emem "f", emtxt "g"],
+    [emtxt "a", emstrong "b", emtxt "c", emem "d", emtxt "e", emstrong "f", emtxt "g"],
+    [emtxt "g"] ]
+
+def poolEmLine (k : Nat) : ELine := emlinePool.getD (k % emlinePool.length) [emtxt "q"]
+
+/-- (em-a) every pool line alone × gap 0..1 × trail 0..1 -/
+def emfamLines : EmFamily where
+  count := emlinePool.length * 4
+  doc i := { items := [{ gap := i / 2 % 2, lines := [poolEmLine (i / 4)] }], trail := i % 2 }
+
+/-- (em-b) each of the 95 printable characters in 7 spellings directly BEFORE the opening (`a` X `*x*` `z`) and
+    directly AFTER the closing delimiter (`a` `*x*` X `z`), for `*` and for `**`; a literal `!` is outside the fragment
+    and answered `skip` -/
+def emfamEdges : EmFamily where
+  count := 95 * 7 * 2 * 2
+  doc i :=
+    let c := UInt8.ofNat (32 + i / 28)
+    let t := (spellings8 c).getD (i / 4 % 7) (lit 120)
+    let e := emKind (i / 2 % 2) "x"
+    if i % 2 == 0 then oneEmLine [.txt [lit 97, t], e, emtxt "z"]
+    else oneEmLine [emtxt "a", e, .txt [t, lit 122]]
+
+/-- (em-c) the same with the character ALONE in front of / behind the delimiter at the side of a space
+    (`a ` X `*x*` `z` has X preceded by a space: the run then follows punctuation that follows white space) -/
+def emfamEdgesSp : EmFamily where
+  count := 95 * 7 * 2 * 2
+  doc i :=
+    let c := UInt8.ofNat (32 + i / 28)
+    let t := (spellings8 c).getD (i / 4 % 7) (lit 120)
+    let e := emKind (i / 2 % 2) "x"
+    if i % 2 == 0 then oneEmLine [.txt [lit 97, lit 32, t], e, emtxt " z"]
+    else oneEmLine [emtxt "a ", e, .txt [t, lit 32, lit 122]]
+
+/-- (em-d) each of the 95 printable characters in 7 spellings ALONE between two atoms: all 16 ordered pairs of
+    {`*x*`, `**x**`, code span, `*xy*`} -/
+def emfamBetween : EmFamily where
+  count := 95 * 7 * 16
+  doc i :=
+    let c := UInt8.ofNat (32 + i / 112)
+    let t := (spellings8 c).getD (i / 16 % 7) (lit 120)
+    oneEmLine [emtxt "a", emKind (i / 4 % 4) "x", .txt [t], emKind (i % 4) "w", emtxt "z"]
+
+/-- paragraphs from base-6 digits: digit % 3 + 1 lines, digit / 3 extra blank lines in front -/
+def emshapeItems (off : Nat) : Nat → Nat → Nat → List EItem
+  | 0, _, _ => []
+  | n + 1, p, code =>
+    let d := code % 6
+    let lines := (List.range (d % 3 + 1)).map fun j => poolEmLine (off + 3 * p + j)
+    { gap := d / 3, lines := lines } :: emshapeItems off n (p + 1) (code / 6)
+
+/-- (em-e) all shapes of `n` paragraphs: 1..3 lines each × gap 0..1 each × trail 0..1 × 9 rotations of the line pool -/
+def emfamShapes (n : Nat) : EmFamily where
+  count := 6 ^ n * 18
+  doc i := { items := emshapeItems (i / 2 % 9 * 3) n 0 (i / 18), trail := i % 2 }
+
+/-- (em-f) the empty document and blank lines only -/
+def emfamEmpty : EmFamily where
+  count := 3
+  doc i := { items := [], trail := i }
+
+def emfamilies : List EmFamily :=
+  [emfamLines, emfamEdges, emfamEdgesSp, emfamBetween, emfamShapes 1, emfamShapes 2, emfamEmpty]
+
+def countEm : Nat := emfamilies.foldl (fun acc f => acc + f.count) 0
+
+def enumEmIn : List EmFamily → Nat → Option EDoc
+  | [], _ => none
+  | f :: rest, i => if i < f.count then some (f.doc i) else enumEmIn rest (i - f.count)
+
+def enumEm (i : Nat) : Option EDoc := enumEmIn emfamilies i
+
+def answerEm (d : EDoc) : String :=
+  if efragB d then s!"{hexOfBytes (spellE d)} {hexOfBytes (expectedE d)}" else "skip"
+
+def modelAnswerEm (d : EDoc) : String :=
+  if !efragB d then "skip" else
+  match GM.Convert.convertCore [] ropts (spellE d) with
+  | .ok h => if h == expectedE d then "ok" else s!"fail:model-differs {hexOfBytes h}"
+  | .error e => s!"fail:model-differs {e.str}"
+
+def specAnswerEm (d : EDoc) : String :=
+  if !efragB d then "skip" else
+  let e := eembed d
+  if expectedE d != expected e then s!"fail:spec-expected {hexOfBytes (expected e)}"
+  else if enoExtraBlanks d && !d.items.isEmpty && spellE d != spell e then s!"fail:spec-spell {hexOfBytes (spell e)}"
+  else if !wellFormed e then "fail:spec-wellformed"
+  else "ok"
+
+/-- the stage-11 ops; `none` for every other op -/
+def withEmDoc (k : EDoc → String) : List String → Option String
+  | ["emgen", s, z] => some (nat s fun seed => nat z fun size => k (genEmDoc seed size))
+  | ["emenum", i] => some (nat i fun i =>
+      match enumEm i with
+      | none => "end"
+      | some d => k d)
+  | _ => none
+
+/-! ## stage 12: indented code blocks (`IDoc`) -/
+
+/-- a line of an indented code block (behind the four spaces): a would-be block opener 30 %, a run of fence characters
+    8 %, else 1..12 printable characters whose first is not a space (15 % of them end with spaces) -/
+def genIcLine : G Bytes := do
+  let r ← below 100
+  if r < 30 then pickL codeFixed
+  else if r < 38 then return List.replicate (3 + (← below 3)) (if (← chance 50) then 96 else 126)
+  else
+    let first ← pickL (printableAll.filter fun c => c != 32)
+    let more ← below 12
+    let rest ← genCodeChars more
+    let sp ← if (← chance 15) then below 3 else pure 0
+    return (first :: rest ++ List.replicate sp 32).take 12
+
+def genIcLines : Nat → G (List Bytes)
+  | 0 => return []
+  | n + 1 => do
+    let l ← genIcLine
+    let rest ← genIcLines n
+    return l :: rest
+
+/-- a block of stage 6 (65 %) or an indented code block of 1..4 lines (35 %; never behind an indented code block);
+    a later block follows without a blank line with probability 50 % where `iabutOK` allows it, else behind 1..3 blank
+    lines; 0..2 blank lines in front of the first block -/
+def genIItems : Option IBlock → Nat → G (List IItem)
+  | _, 0 => return []
+  | prev, n + 1 => do
+    let prevIc := match prev with | some a => a.isIc | none => false
+    let ic ← chance 35
+    let b ← if ic && !prevIc then do pure (IBlock.icode (← genIcLines (1 + (← below 4)))) else do pure (IBlock.h (← genHBlock))
+    let sep ← match prev with
+      | none => below 3
+      | some a => do
+        let abut ← chance 50
+        let k ← below 3
+        pure (if abut && iabutOK a b then 0 else 1 + k)
+    let rest ← genIItems (some b) n
+    return { sep := sep, block := b } :: rest
+
+def genIDocM (size : Nat) : G IDoc := do
+  let n ← below (max size 1)
+  let items ← genIItems none (n + 1)
+  let trail ← below 4
+  return { items := items, trail := trail }
+
+def genIDoc (seed size : Nat) : IDoc :=
+  (genIDocM size |>.run { s := UInt64.ofNat (seed * 2654435761 + size + 121212) }).1
+
+structure IFamily where
+  count : Nat
+  doc : Nat → IDoc
+
+/-- the contents of the single indented code blocks -/
+def icPool : List (List Bytes) :=
+  [ [strBytes "x"], [strBytes "x", strBytes "y z"], [strBytes "# h"], [strBytes "- i", strBytes "> q"], [strBytes "<a&b>"],
+    [strBytes "```"], [strBytes "***"], [strBytes "t \"q\"  "], [strBytes "1. a", strBytes "---", strBytes "~~~"],
+    [strBytes "[a]: /u"], [strBytes "\\"], [strBytes "<div>"] ]
+
+/-- the ten block kinds of the stage-12 scope: the nine of stage 6 and an indented code block -/
+def ikindBlock (pos kind : Nat) : IBlock :=
+  if kind < 9 then .h (kkindBlock pos kind) else .icode (icPool.getD (pos % icPool.length) [strBytes "x"])
+
+/-- base-30 digits: kind = digit % 10, sep = digit / 10 (0..2; the first block: sep 0) -/
+def iseqItems : Nat → Nat → Nat → List IItem
+  | 0, _, _ => []
+  | n + 1, pos, code =>
+    { sep := if pos == 0 then 0 else code % 30 / 10, block := ikindBlock pos (code % 30 % 10) } ::
+      iseqItems n (pos + 1) (code / 30)
+
+/-- (i-a) one indented code block: 12 contents × 0..2 blank lines in front × 0..3 behind -/
+def ifamOne : IFamily where
+  count := 12 * 3 * 4
+  doc i := { items := [{ sep := i / 4 % 3, block := .icode (icPool.getD (i / 12) []) }], trail := i % 4 }
+
+/-- (i-b) every sequence of `n` block kinds × sep 0..2 for each later block × trail 0..2; the combinations outside the
+    fragment (text line / `---` / indented code directly behind a paragraph, indented code behind indented code) are
+    answered `skip` -/
+def ifamSeq (n : Nat) : IFamily where
+  count := 10 * 30 ^ (n - 1) * 3
+  doc i := { items := iseqItems n 0 ((i / 3) % 10 + (i / 3) / 10 * 30), trail := i % 3 }
+
+def ifamilies : List IFamily := [ifamOne, ifamSeq 2, ifamSeq 3]
+
+def countI : Nat := ifamilies.foldl (fun acc f => acc + f.count) 0
+
+def enumIIn : List IFamily → Nat → Option IDoc
+  | [], _ => none
+  | f :: rest, i => if i < f.count then some (f.doc i) else enumIIn rest (i - f.count)
+
+def enumI (i : Nat) : Option IDoc := enumIIn ifamilies i
+
+def answerI (d : IDoc) : String :=
+  if ifragB d then s!"{hexOfBytes (spellIc d)} {hexOfBytes (expectedI d)}" else "skip"
+
+def modelAnswerI (d : IDoc) : String :=
+  if !ifragB d then "skip" else
+  match GM.Convert.convertCore [] ropts (spellIc d) with
+  | .ok h => if h == expectedI d then "ok" else s!"fail:model-differs {hexOfBytes h}"
+  | .error e => s!"fail:model-differs {e.str}"
+
+def specAnswerI (d : IDoc) : String :=
+  if !ifragB d then "skip" else
+  let e := iembed d
+  if expectedI d != expected e then s!"fail:spec-expected {hexOfBytes (expected e)}"
+  else if inoExtraBlanks d && !d.items.isEmpty && spellIc d != spell e then s!"fail:spec-spell {hexOfBytes (spell e)}"
+  else if !wellFormed e then "fail:spec-wellformed"
+  else "ok"
+
+/-! stage 12 without the final line feed: the same documents with `trail` forced to 0 -/
+
+def noTrailIE (d : IDoc) : IDoc := { d with trail := 0 }
+
+def answerIE (d : IDoc) : String :=
+  if ifragEB d then s!"{hexOfBytes (spellIcE d)} {hexOfBytes (expectedI d)}" else "skip"
+
+def modelAnswerIE (d : IDoc) : String :=
+  if !ifragEB d then "skip" else
+  match GM.Convert.convertCore [] ropts (spellIcE d) with
+  | .ok h => if h == expectedI d then "ok" else s!"fail:model-differs {hexOfBytes h}"
+  | .error e => s!"fail:model-differs {e.str}"
+
+def specAnswerIE (d : IDoc) : String :=
+  if !ifragEB d then "skip" else
+  let e := iembedE d
+  if expectedI d != expected e then s!"fail:spec-expected {hexOfBytes (expected e)}"
+  else if inoExtraBlanks d && spellIcE d != spell e then s!"fail:spec-spell {hexOfBytes (spell e)}"
+  else if !wellFormed e then "fail:spec-wellformed"
+  else "ok"
+
+/-- the stage-12 ops; `none` for every other op -/
+def withIDoc (k : IDoc → String) (ke : IDoc → String) : List String → Option String
+  | ["igen", s, z] => some (nat s fun seed => nat z fun size => k (genIDoc seed size))
+  | ["ienum", i] => some (nat i fun i =>
+      match enumI i with
+      | none => "end"
+      | some d => k d)
+  | ["iegen", s, z] => some (nat s fun seed => nat z fun size => ke (noTrailIE (genIDoc seed size)))
+  | ["ieenum", i] => some (nat i fun i =>
+      match enumI i with
+      | none => "end"
+      | some d => ke (noTrailIE d))
+  | _ => none
+
+/-- `icount` / `iecount`, `igen` / `ienum` / `iegen` / `ieenum` and their `model` / `spec` variants -/
+def handleI : List String → Option String
+  | ["icount"] => some (toString countI)
+  | ["iecount"] => some (toString countI)
+  | "model" :: rest => withIDoc modelAnswerI modelAnswerIE rest
+  | "spec" :: rest => withIDoc specAnswerI specAnswerIE rest
+  | rest => withIDoc answerI answerIE rest
+
+/-! ## stage 13: the union (`UDocS`: the blocks of stage 6 / 7, rich lines, backslash hard breaks) -/
+
+/-- a rich line: plain text 35 %, else the stage-11 line with 1..3 atoms that are not text -/
+def genURich : G ELine := do
+  if (← chance 35) then
+    let l ← genLine
+    return [.txt l]
+  else genEmLine
+
+/-- `n` paragraph lines; a line that is not the last one is hard with probability 40 % -/
+def genULines : Nat → G (List ULineS)
+  | 0 => return []
+  | n + 1 => do
+    let l ← genURich
+    let hard ← chance 40
+    let rest ← genULines n
+    return { atoms := l, hard := hard && n != 0 } :: rest
+
+/-- paragraph 40 % (1..4 rich lines), heading 22 % (level 1..6, a rich line), thematic break 13 %, fenced code 25 % -/
+def genUBlock : G UBlockS := do
+  let r ← below 100
+  if r < 40 then
+    let n ← below 4
+    let ls ← genULines (1 + n)
+    return .para ls
+  else if r < 62 then
+    let level ← below 6
+    let l ← genURich
+    return .heading (level + 1) l
+  else if r < 75 then
+    let c ← below 3
+    let n ← below 5
+    return .thematic c n
+  else
+    let tilde ← chance 50
+    let n ← below 4
+    let info ← if (← chance 40) then pure [] else genInfo (1 + (← below 6))
+    let lines ← genCodeLines tilde (← below 6)
+    return .fcode tilde n info lines
+
+/-- as `genKItems` / `genIItems`: with probability 20 % an indented code block of 1..4 lines (never behind an indented
+    code block; behind a paragraph always after a blank line: `uabutOK`) -/
+def genUItems : Option UBlockS → Nat → G (List UItem)
+  | _, 0 => return []
+  | prev, n + 1 => do
+    let prevIc := match prev with | some a => a.isIc | none => false
+    let ic ← chance 20
+    let b ← if ic && !prevIc then do pure (UBlockS.icode (← genIcLines (1 + (← below 4)))) else genUBlock
+    let sep ← match prev with
+      | none => below 3
+      | some a => do
+        let abut ← chance 50
+        let k ← below 3
+        pure (if abut && uabutOK a b then 0 else 1 + k)
+    let rest ← genUItems (some b) n
+    return { sep := sep, block := b } :: rest
+
+def genUDocM (size : Nat) : G UDocS := do
+  let n ← below (max size 1)
+  let items ← genUItems none (n + 1)
+  let trail ← below 3
+  return { items := items, trail := trail }
+
+def genUDoc (seed size : Nat) : UDocS :=
+  (genUDocM size |>.run { s := UInt64.ofNat (seed * 2654435761 + size + 13013) }).1
+
+structure UFamily where
+  count : Nat
+  doc : Nat → UDocS
+
+def usoft (l : ELine) : ULineS := { atoms := l }
+
+def uhard (l : ELine) : ULineS := { atoms := l, hard := true }
+
+/-- rich lines that end in text: emphasis then text, `x*y*z`, a code span between letters, all kinds of atoms, plain
+    text, an escaped `#` and an escaped backslash inside the text, a `#` written as a reference -/
+def ulinePool : List ELine :=
+  [ [emtxt "a ", emem "b", emtxt " c"],
+    [emtxt "x", emem "y", emtxt "z"],
+    [emtxt "a", emcode "x", emtxt "b"],
+    [emtxt "p ", emstrong "q", emtxt " r ", emcode "s", emtxt " t"],
+    [emtxt "g"],
+    [.txt [lit 97, lit 32, lit 35, lit 32, lit 98], emem "c", emtxt "d"],
+    [emtxt "e", emstrong "f", .txt [lit 92, lit 104]],
+    [.txt [lit 105, lit 32, ⟨35, .dec 0⟩], emcode "j", emtxt "k9"] ]
+
+def poolULine (k : Nat) : ELine := ulinePool.getD (k % ulinePool.length) [emtxt "q"]
+
+/-- the seven block kinds of the stage-13 scope: rich paragraph of 1 line, of 2 lines with a hard break, rich heading
+    (level = position + 1), `***`, backtick fence with one line, `---`, rich paragraph of 2 lines with a soft break -/
+def ukindBlock (off pos kind : Nat) : UBlockS :=
+  match kind with
+  | 0 => .para [usoft (poolULine (off + pos))]
+  | 1 => .para [uhard (poolULine (off + pos)), usoft (poolULine (off + pos + 1))]
+  | 2 => .heading (pos % 6 + 1) (poolULine (off + pos + 2))
+  | 3 => .thematic 0 0
+  | 4 => .fcode false 0 [] [strBytes "x"]
+  | 5 => .thematic 1 0
+  | _ => .para [usoft (poolULine (off + pos)), usoft (poolULine (off + pos + 1))]
+
+/-- digits in base `2 * nk`: kind = digit % nk, sep = digit / nk (the first block: sep 0) -/
+def useqItems (off nk : Nat) : Nat → Nat → Nat → List UItem
+  | 0, _, _ => []
+  | n + 1, pos, code =>
+    { sep := if pos == 0 then 0 else code % (2 * nk) / nk, block := ukindBlock off pos (code % (2 * nk) % nk) } ::
+      useqItems off nk n (pos + 1) (code / (2 * nk))
+
+/-- (u-a) every ordered pair of the seven block kinds × sep 0..1 for the second block × trail 0..1 × 8 rotations of the
+    line pool; the combinations outside the fragment (text line or `---` directly behind a paragraph) are answered
+    `skip` -/
+def ufamPairs : UFamily where
+  count := 7 * 14 * 2 * 8
+  doc i :=
+    let j := i / 16
+    { items := useqItems (i / 2 % 8) 7 2 0 (j % 7 + j / 7 * 14), trail := i % 2 }
+
+/-- (u-b) every ordered triple of the first five kinds × sep 0..1 for each later block × trail 0..1 -/
+def ufamTriples : UFamily where
+  count := 5 * 10 * 10 * 2
+  doc i :=
+    let j := i / 2
+    { items := useqItems 0 5 3 0 (j % 5 + j / 5 * 10), trail := i % 2 }
+
+/-- (u-c) one heading: 6 levels × the stage-11 line pool × trail 0..1 -/
+def ufamHeadings : UFamily where
+  count := 6 * emlinePool.length * 2
+  doc i := { items := [{ block := .heading (i / 2 % 6 + 1) (poolEmLine (i / 12)) }], trail := i % 2 }
+
+/-- (u-d) one paragraph of three lines from the stage-11 line pool × every combination of hard flags (a hard last
+    line is outside the fragment: `skip`) × trail 0..1 -/
+def ufamFlags : UFamily where
+  count := emlinePool.length * 8 * 2
+  doc i :=
+    let k := i / 16
+    let f := i / 2 % 8
+    { items := [{ block := .para [{ atoms := poolEmLine k, hard := f % 2 == 1 },
+                                  { atoms := poolEmLine (k + 1), hard := f / 2 % 2 == 1 },
+                                  { atoms := poolEmLine (k + 2), hard := f / 4 == 1 }] }], trail := i % 2 }
+
+/-- (u-e) fixed documents: headings `# a *b* c`, `# a **b** c`, ``## a `x` c``; heading texts that end in a code span,
+    in emphasis, in strong emphasis, in `\#`, in a space (all outside the fragment: `skip`); a `#` inside a heading text
+    (escaped, and as a reference); a paragraph line ending with emphasis-then-text; a hard break directly behind `x*y*z`,
+    behind ``a`x`b``, behind a code span (outside: `skip`); two hard breaks; a heading, `***` and a fence directly
+    behind a hard-broken paragraph -/
+def ufixedDocs : List (List UItem) :=
+  [ [{ block := .heading 1 [emtxt "a ", emem "b", emtxt " c"] }],
+    [{ block := .heading 1 [emtxt "a ", emstrong "b", emtxt " c"] }],
+    [{ block := .heading 2 [emtxt "a ", emcode "x", emtxt " c"] }],
+    [{ block := .heading 1 [emtxt "a ", emcode "x"] }],
+    [{ block := .heading 1 [emtxt "a ", emem "x"] }],
+    [{ block := .heading 1 [emtxt "a ", emstrong "x"] }],
+    [{ block := .heading 1 [.txt [lit 97, lit 32, ⟨35, .bs⟩]] }],
+    [{ block := .heading 1 [emtxt "a "] }],
+    [{ block := .heading 3 [.txt [lit 97, lit 32, ⟨35, .bs⟩, lit 32, lit 98], emem "c", emtxt "d"] }],
+    [{ block := .heading 3 [.txt [lit 97, lit 32, ⟨35, .hex 0 false false⟩, ⟨35, .named⟩, lit 32, lit 98]] }],
+    [{ block := .heading 6 [emtxt "a", emem "b", emtxt "c", emstrong "d", emtxt "e", emcode "f", emtxt "g"] }],
+    [{ block := .para [usoft [emtxt "a ", emem "b", emtxt "c"]] }],
+    [{ block := .para [uhard [emtxt "x", emem "y", emtxt "z"], usoft [emtxt "w"]] }],
+    [{ block := .para [uhard [emtxt "a", emcode "x", emtxt "b"], usoft [emtxt "c"]] }],
+    [{ block := .para [uhard [emtxt "a", emcode "x"], usoft [emtxt "c"]] }],
+    [{ block := .para [uhard [emtxt "a", emem "x"], usoft [emtxt "c"]] }],
+    [{ block := .para [uhard [emtxt "a", emstrong "x", emtxt "1"], uhard [emtxt "b2"], usoft [emtxt "c", emem "d", emtxt "e"]] }],
+    [{ block := .para [uhard [emtxt "a"], usoft [emtxt "b", emcode "c", emtxt "d"]] }, { block := .heading 2 [emtxt "h", emem "i", emtxt "j"] }],
+    [{ block := .para [uhard [emtxt "a"], usoft [emtxt "b"]] }, { block := .thematic 0 0 }],
+    [{ block := .para [uhard [emtxt "a"], usoft [emtxt "b"]] }, { block := .fcode true 0 [] [] }],
+    [{ block := .heading 1 [emtxt "a", emem "b", emtxt "c"] }, { block := .para [uhard [emtxt "d"], usoft [emtxt "e"]] }],
+    [{ sep := 2, block := .heading 4 [emtxt "a", emcode "b", emtxt "c"] }, { sep := 2, block := .heading 5 [emtxt "d", emstrong "e", emtxt "f"] }] ]
+
+def ufamFixed : UFamily where
+  count := ufixedDocs.length * 2
+  doc i := { items := ufixedDocs.getD (i / 2) [], trail := i % 2 }
+
+/-- (u-f) the empty document and blank lines only -/
+def ufamEmpty : UFamily where
+  count := 3
+  doc i := { items := [], trail := i }
+
+/-- the eight block kinds with indented code: the seven of `ukindBlock` and (7) an indented code block from `icPool` -/
+def ukindBlockI (off pos kind : Nat) : UBlockS :=
+  if kind == 7 then .icode (icPool.getD ((off + pos) % icPool.length) [strBytes "x"]) else ukindBlock off pos kind
+
+/-- digits in base `3 * ks.length`: kind = `ks[digit % ks.length]`, sep = digit / ks.length (0..2; the first block: 0) -/
+def useqItemsI (off : Nat) (ks : List Nat) : Nat → Nat → Nat → List UItem
+  | 0, _, _ => []
+  | n + 1, pos, code =>
+    let nk := ks.length
+    { sep := if pos == 0 then 0 else code % (3 * nk) / nk, block := ukindBlockI off pos (ks.getD (code % (3 * nk) % nk) 0) } ::
+      useqItemsI off ks n (pos + 1) (code / (3 * nk))
+
+/-- (u-g) one indented code block: 12 contents × 0..2 blank lines in front × 0..2 behind -/
+def ufamIcOne : UFamily where
+  count := 12 * 3 * 3
+  doc i := { items := [{ sep := i / 3 % 3, block := .icode (icPool.getD (i / 9) []) }], trail := i % 3 }
+
+/-- (u-h) every ordered pair of the eight block kinds × sep 0..2 for the second block × trail 0..1 × 3 rotations of the
+    pools; outside the fragment (`skip`): an indented code block directly behind a paragraph, an indented code block
+    behind an indented code block (whatever the separation) -/
+def ufamIcPairs : UFamily where
+  count := 8 * 24 * 2 * 3
+  doc i :=
+    let j := i / 6
+    { items := useqItemsI (i / 2 % 3) [0, 1, 2, 3, 4, 5, 6, 7] 2 0 (j % 8 + j / 8 * 24), trail := i % 2 }
+
+/-- (u-i) every ordered triple of: rich paragraph, heading, fence, indented code, hard-broken paragraph × sep 0..2 for
+    each later block × trail 0..1 -/
+def ufamIcTriples : UFamily where
+  count := 5 * 15 * 15 * 2
+  doc i :=
+    let j := i / 2
+    { items := useqItemsI 0 [0, 2, 4, 7, 1] 3 0 (j % 5 + j / 5 * 15), trail := i % 2 }
+
+def ufamilies : List UFamily :=
+  [ufamFixed, ufamPairs, ufamTriples, ufamHeadings, ufamFlags, ufamEmpty, ufamIcOne, ufamIcPairs, ufamIcTriples]
+
+def countU : Nat := ufamilies.foldl (fun acc f => acc + f.count) 0
+
+def enumUIn : List UFamily → Nat → Option UDocS
+  | [], _ => none
+  | f :: rest, i => if i < f.count then some (f.doc i) else enumUIn rest (i - f.count)
+
+def enumU (i : Nat) : Option UDocS := enumUIn ufamilies i
+
+def answerU (d : UDocS) : String :=
+  if ufragB d then s!"{hexOfBytes (spellU d)} {hexOfBytes (expectedU d)}" else "skip"
+
+def modelAnswerU (d : UDocS) : String :=
+  if !ufragB d then "skip" else
+  match GM.Convert.convertCore [] ropts (spellU d) with
+  | .ok h => if h == expectedU d then "ok" else s!"fail:model-differs {hexOfBytes h}"
+  | .error e => s!"fail:model-differs {e.str}"
+
+def specAnswerU (d : UDocS) : String :=
+  if !ufragB d then "skip" else
+  let e := uembed d
+  if expectedU d != expected e then s!"fail:spec-expected {hexOfBytes (expected e)}"
+  else if unoExtraBlanks d && !d.items.isEmpty && spellU d != spell e then s!"fail:spec-spell {hexOfBytes (spell e)}"
+  else if !wellFormed e then "fail:spec-wellformed"
+  else "ok"
+
+/-- stage 13 without the final line feed: `trail` forced to 0 -/
+def unoTrail (d : UDocS) : UDocS := { d with trail := 0 }
+
+def answerUE (d : UDocS) : String :=
+  if ufragEB d then s!"{hexOfBytes (spellUE d)} {hexOfBytes (expectedU d)}" else "skip"
+
+def modelAnswerUE (d : UDocS) : String :=
+  if !ufragEB d then "skip" else
+  match GM.Convert.convertCore [] ropts (spellUE d) with
+  | .ok h => if h == expectedU d then "ok" else s!"fail:model-differs {hexOfBytes h}"
+  | .error e => s!"fail:model-differs {e.str}"
+
+def specAnswerUE (d : UDocS) : String :=
+  if !ufragEB d then "skip" else
+  let e := uembedE d
+  if expectedU d != expected e then s!"fail:spec-expected {hexOfBytes (expected e)}"
+  else if unoExtraBlanks d && spellUE d != spell e then s!"fail:spec-spell {hexOfBytes (spell e)}"
+  else if !wellFormed e then "fail:spec-wellformed"
+  else "ok"
+
+/-- the stage-13 ops; `none` for every other op -/
+def withUDoc (k ke : UDocS → String) : List String → Option String
+  | ["ugen", s, z] => some (nat s fun seed => nat z fun size => k (genUDoc seed size))
+  | ["uenum", i] => some (nat i fun i =>
+      match enumU i with
+      | none => "end"
+      | some d => k d)
+  | ["uegen", s, z] => some (nat s fun seed => nat z fun size => ke (unoTrail (genUDoc seed size)))
+  | ["ueenum", i] => some (nat i fun i =>
+      match enumU i with
+      | none => "end"
+      | some d => ke (unoTrail d))
+  | _ => none
+
+/-- `ucount` / `uecount`, `ugen` / `uenum` / `uegen` / `ueenum` and their `model` / `spec` variants -/
+def handleU : List String → Option String
+  | ["ucount"] => some (toString countU)
+  | ["uecount"] => some (toString countU)
+  | "model" :: rest => withUDoc modelAnswerU modelAnswerUE rest
+  | "spec" :: rest => withUDoc specAnswerU specAnswerUE rest
+  | rest => withUDoc answerU answerUE rest
+
+/-! ## stage 14: a stage-6 document inside `k + 1` nested block quotes (`spellNQ`, `expectedNQ`, `nqembed`; the
+    documents of `qgen` / `qenum`; `k` = the number of EXTRA quotes) -/
+
+def answerNQ (k : Nat) (d : KDoc) : String :=
+  if qfragB d then s!"{hexOfBytes (spellNQ k d)} {hexOfBytes (expectedNQ k d)}" else "skip"
+
+def modelAnswerNQ (k : Nat) (d : KDoc) : String :=
+  if !qfragB d then "skip" else
+  match GM.Convert.convertCore [] ropts (spellNQ k d) with
+  | .ok h => if h == expectedNQ k d then "ok" else s!"fail:model-differs {hexOfBytes h}"
+  | .error e => s!"fail:model-differs {e.str}"
+
+def specAnswerNQ (k : Nat) (d : KDoc) : String :=
+  if !qfragB d then "skip" else
+  let e := nqembed k d
+  if expectedNQ k d != expected e then s!"fail:spec-expected {hexOfBytes (expected e)}"
+  else if !wellFormed e then "fail:spec-wellformed"
+  else "ok"
+
+/-- the indices behind `3 * countQ`: every 16th stage-10 index with `k = 0` (the cross-check with stage 10) -/
+def countNQ0 : Nat := (countQ + 15) / 16
+
+def countNQ : Nat := 3 * countQ + countNQ0
+
+/-- `nqgen <seed> <size>`: the document of `qgen <seed> <size>` with `k = 0` when `seed % 16 = 0`, else
+    `k = seed % 3 + 1`; `nqenum <i>`: for `i < 3 * countQ` the document of `qenum (i / 3)` with `k = i % 3 + 1`,
+    behind that the document of `qenum (16 * (i - 3 * countQ))` with `k = 0`; `none` for every other op -/
+def withNQDoc (f : Nat → KDoc → String) : List String → Option String
+  | ["nqgen", s, z] => some (nat s fun seed => nat z fun size =>
+      f (if seed % 16 == 0 then 0 else seed % 3 + 1) (genQDoc seed size))
+  | ["nqenum", i] => some (nat i fun i =>
+      if i < 3 * countQ then
+        match enumQ (i / 3) with
+        | none => "end"
+        | some d => f (i % 3 + 1) d
+      else if i < countNQ then
+        match enumQ (16 * (i - 3 * countQ)) with
+        | none => "end"
+        | some d => f 0 d
+      else "end")
+  | _ => none
+
+/-- `nqcount`, `nqgen` / `nqenum` and their `model` / `spec` variants -/
+def handleNQ : List String → Option String
+  | ["nqcount"] => some (toString countNQ)
+  | "model" :: rest => withNQDoc modelAnswerNQ rest
+  | "spec" :: rest => withNQDoc specAnswerNQ rest
+  | rest => withNQDoc answerNQ rest
+
+/-! ## stage 15: a stage-13 (union) document inside ONE block quote (`UDocS` with `uqfragB`, `spellUQ`, `expectedUQ`,
+    `uqembed`): the documents of `ugen` / `uenum` made clean -/
+
+/-- an atom in front of cleaned atoms: two text atoms next to each other become one -/
+def uqconsAtom (a : EAtomS) (acc : List EAtomS) : List EAtomS :=
+  match a, acc with
+  | .txt x, .txt y :: rest => .txt (x ++ y) :: rest
+  | a, acc => a :: acc
+
+/-- an atom without any excluded byte: text character by character (`qcleanT`), a code span with its content cleaned;
+    `*x*` becomes the code span of `x` (the line keeps its shape), `**x**` becomes the text `x` -/
+def uqcleanAtom : EAtomS → EAtomS
+  | .txt cs => .txt (cs.map qcleanT)
+  | .code c => .code (qcleanBytes c)
+  | .em c => .code (qcleanBytes c)
+  | .strong c => .txt (elits (qcleanBytes c))
+
+def uqcleanLine (l : ELine) : ELine := (l.map uqcleanAtom).foldr uqconsAtom []
+
+/-- thematic breaks are written with `_` -/
+def uqcleanBlock : UBlockS → UBlockS
+  | .para lines => .para (lines.map fun x => { x with atoms := uqcleanLine x.atoms })
+  | .heading level text => .heading level (uqcleanLine text)
+  | .thematic _ n => .thematic 2 n
+  | .fcode tilde n info lines => .fcode tilde n (qcleanBytes info) (lines.map qcleanBytes)
+  | .icode lines => .fcode true 0 [] (lines.map qcleanBytes)   -- no indented code block inside the quote (`uqfragB`)
+
+/-- the stage-13 document with every excluded source byte replaced and the emphasis atoms respelled (block kinds, line
+    counts, hard flags, blank lines unchanged) -/
+def uqcleanDoc (d : UDocS) : UDocS :=
+  { d with items := d.items.map fun it => { it with block := uqcleanBlock it.block } }
+
+def genUQDoc (seed size : Nat) : UDocS := uqcleanDoc (genUDoc seed size)
+
+/-- lines for the quoted union: a literal `>` inside the text, next to a code span, two code spans, `&gt;`, an escaped
+    backslash, one letter -/
+def uqlinePool : List ELine :=
+  [ [emtxt "a > b"],
+    [emtxt "a ", emcode "x", emtxt " > c"],
+    [emtxt "a", emcode "b", emtxt "c", emcode "d", emtxt "e"],
+    [.txt [lit 97, ⟨62, .named⟩, lit 98]],
+    [.txt [lit 97, ⟨92, .bs⟩, lit 98], emcode "q", emtxt "r"],
+    [emtxt "g"] ]
+
+def poolUQLine (k : Nat) : ELine := uqlinePool.getD (k % uqlinePool.length) [emtxt "q"]
+
+/-- (uq-a) one block of every stage-13 kind × 0..2 blank lines in front × 0..2 behind -/
+def uqfamEdge : UFamily where
+  count := 7 * 3 * 3
+  doc i := { items := [{ sep := i / 3 % 3, block := ukindBlock 0 0 (i / 9) }], trail := i % 3 }
+
+/-- (uq-b) a hard break behind every pool line × the pool line behind it × what follows the paragraph directly
+    (nothing, a heading with a code span, `___`, a fence) × trail 0..1: the break backslash is the last byte of a quoted
+    line -/
+def uqfamHard : UFamily where
+  count := uqlinePool.length * uqlinePool.length * 4 * 2
+  doc i :=
+    let n := uqlinePool.length
+    let a := poolUQLine (i / (8 * n))
+    let b := poolUQLine (i / 8 % n)
+    let next : List UItem :=
+      match i / 2 % 4 with
+      | 0 => []
+      | 1 => [{ block := .heading 2 [emtxt "h ", emcode "i", emtxt " j"] }]
+      | 2 => [{ block := .thematic 2 0 }]
+      | _ => [{ block := .fcode false 0 [] [strBytes "> x", [], strBytes "y"] }]
+    { items := { block := .para [uhard a, usoft b] } :: next, trail := i % 2 }
+
+/-- (uq-c) one quoted heading: 6 levels × the pool lines × trail 0..1, alone and directly behind a paragraph -/
+def uqfamHead : UFamily where
+  count := 6 * uqlinePool.length * 2 * 2
+  doc i :=
+    let pre : List UItem := if i / 2 % 2 == 1 then [{ block := .para [usoft (poolUQLine 1)] }] else []
+    { items := pre ++ [{ block := .heading (i / 4 % 6 + 1) (poolUQLine (i / 24)) }], trail := i % 2 }
+
+def uqfamilies : List UFamily := ufamilies ++ [uqfamEdge, uqfamHard, uqfamHead]
+
+def countUQ : Nat := uqfamilies.foldl (fun acc f => acc + f.count) 0
+
+def enumUQ (i : Nat) : Option UDocS := (enumUIn uqfamilies i).map uqcleanDoc
+
+def answerUQ (d : UDocS) : String :=
+  if uqfragB d then s!"{hexOfBytes (spellUQ d)} {hexOfBytes (expectedUQ d)}" else "skip"
+
+def modelAnswerUQ (d : UDocS) : String :=
+  if !uqfragB d then "skip" else
+  match GM.Convert.convertCore [] ropts (spellUQ d) with
+  | .ok h => if h == expectedUQ d then "ok" else s!"fail:model-differs {hexOfBytes h}"
+  | .error e => s!"fail:model-differs {e.str}"
+
+def specAnswerUQ (d : UDocS) : String :=
+  if !uqfragB d then "skip" else
+  let e := uqembed d
+  if expectedUQ d != expected e then s!"fail:spec-expected {hexOfBytes (expected e)}"
+  else if !wellFormed e then "fail:spec-wellformed"
+  else "ok"
+
+/-- the stage-15 ops; `none` for every other op -/
+def withUQDoc (k : UDocS → String) : List String → Option String
+  | ["uqgen", s, z] => some (nat s fun seed => nat z fun size => k (genUQDoc seed size))
+  | ["uqenum", i] => some (nat i fun i =>
+      match enumUQ i with
+      | none => "end"
+      | some d => k d)
+  | _ => none
+
+/-- `uqcount`, `uqgen` / `uqenum` and their `model` / `spec` variants -/
+def handleUQ : List String → Option String
+  | ["uqcount"] => some (toString countUQ)
+  | "model" :: rest => withUQDoc modelAnswerUQ rest
+  | "spec" :: rest => withUQDoc specAnswerUQ rest
+  | rest => withUQDoc answerUQ rest
+
+/-! ## stage 16: inline links inside the text lines (`LDoc`, paragraphs only; `spellL`, `expectedL`, `lembed`) -/
+
+/-- `n` destination bytes: `/` 30 %, else a letter or digit -/
+def genDest16 : Nat → G Bytes
+  | 0 => return []
+  | n + 1 => do
+    let c ← if (← chance 30) then pure 47 else pickL alnums
+    let rest ← genDest16 n
+    return c :: rest
+
+/-- a link: text 1..6 letters and digits, destination 1..8 letters, digits and `/` -/
+def genLinkAtom : G LAtomS := do
+  let t ← genInfo (1 + (← below 6))
+  let d ← genDest16 (1 + (← below 8))
+  return .link t d
+
+/-- `n` further links, each followed by a text atom (the last one ends with a literal letter or digit) -/
+def genLTail : Nat → G (List LAtomS)
+  | 0 => return []
+  | n + 1 => do
+    let c ← genLinkAtom
+    let t ← genEdgeText true (n != 0)
+    let t ← if n == 0 then (do return t ++ [lit (← pickL alnums)])
+      else if t.isEmpty then (do return [lit (← pickL (32 :: alnums))]) else pure t
+    let rest ← genLTail n
+    return c :: .txt t :: rest
+
+/-- a line with 0..3 links (plain text 20 %) -/
+def genLLine : G LLine := do
+  if (← chance 20) then
+    let l ← genLine
+    return [.txt l]
+  else
+    let a := lit (← pickL letters)
+    let t ← genEdgeText false true
+    let rest ← genLTail (1 + (← below 3))
+    return .txt (a :: t) :: rest
+
+def genLLines : Nat → G (List LLine)
+  | 0 => return []
+  | n + 1 => do
+    let l ← genLLine
+    let rest ← genLLines n
+    return l :: rest
+
+def genLItems : Nat → G (List LItem)
+  | 0 => return []
+  | n + 1 => do
+    let gap ← below 3
+    let ls ← genLLines (1 + (← below 3))
+    let rest ← genLItems n
+    return { gap := gap, lines := ls } :: rest
+
+def genLDocM (size : Nat) : G LDoc := do
+  let n ← below (max size 1)
+  let items ← genLItems (n + 1)
+  let trail ← below 3
+  return { items := items, trail := trail }
+
+def genLDoc (seed size : Nat) : LDoc :=
+  (genLDocM size |>.run { s := UInt64.ofNat (seed * 2654435761 + size + 16016) }).1
+
+structure LFamily where
+  count : Nat
+  doc : Nat → LDoc
+
+def oneLLine (l : LLine) : LDoc := { items := [{ lines := [l] }] }
+
+def ltxt16 (s : String) : LAtomS := .txt (lits s)
+def llink16 (t d : String) : LAtomS := .link (strBytes t) (strBytes d)
+
+/-- lines of the fixed shapes: a link touching text on both sides, between spaces, two links (text / a space between
+    them), the destinations `c`, `/c`, `c/d`, `/`, `//`, `a/b/c/`, a text of several characters, digits only, escaped
+    brackets next to a link (`a\[[b](c)\]d`, `a\][b](c)\[d`), parentheses next to a link, an escaped `!` and `&excl;`
+    directly in front of a link, escaped output next to a link, three links -/
+def llinePool : List LLine :=
+  [ [ltxt16 "a", llink16 "b" "c", ltxt16 "d"],
+    [ltxt16 "a ", llink16 "b" "c", ltxt16 " d"],
+    [ltxt16 "a", llink16 "b" "c", ltxt16 "d", llink16 "e" "f", ltxt16 "g"],
+    [ltxt16 "a", llink16 "b" "c", ltxt16 " ", llink16 "e" "f", ltxt16 "g"],
+    [ltxt16 "a", llink16 "b" "/c", ltxt16 "d"],
+    [ltxt16 "a", llink16 "b" "c/d", ltxt16 "e"],
+    [ltxt16 "a", llink16 "b" "/", ltxt16 "d"],
+    [ltxt16 "a", llink16 "b" "//", ltxt16 "d"],
+    [ltxt16 "a", llink16 "b" "a/b/c/", ltxt16 "d"],
+    [ltxt16 "see ", llink16 "word12" "path/to/page", ltxt16 " for more"],
+    [ltxt16 "a", llink16 "123" "456", ltxt16 "7"],
+    [.txt [lit 97, lit 91], llink16 "b" "c", .txt [lit 93, lit 100]],
+    [.txt [lit 97, lit 93], llink16 "b" "c", .txt [lit 91, lit 100]],
+    [ltxt16 "a(", llink16 "b" "c", ltxt16 ")d"],
+    [ltxt16 "a", llink16 "b" "c", ltxt16 "(x)d"],
+    [ltxt16 "a", llink16 "b" "c", .txt [lit 91, lit 120, lit 93, lit 100]],
+    [.txt [lit 97, ⟨33, .bs⟩], llink16 "b" "c", ltxt16 "d"],
+    [.txt [lit 97, ⟨33, .named⟩], llink16 "b" "c", ltxt16 "d"],
+    [.txt [lit 97, ⟨33, .dec 0⟩], llink16 "b" "c", ltxt16 "d"],
+    [.txt [lit 97, ⟨60, .named⟩], llink16 "b" "c", .txt [⟨38, .named⟩, lit 98]],
+    [.txt [lit 97, lit 92], llink16 "b" "c", .txt [lit 92, lit 100]],
+    [ltxt16 "a", llink16 "b" "c", .txt [lit 93], llink16 "e" "f", ltxt16 "g"],
+    [ltxt16 "a", llink16 "b" "c", .txt [lit 91], llink16 "e" "f", ltxt16 "g"],
+    [ltxt16 "a", llink16 "b" "c", .txt [lit 40], llink16 "e" "f", ltxt16 "g"],
+    [ltxt16 "a", llink16 "b" "c", ltxt16 "d", llink16 "e" "/f", ltxt16 "g", llink16 "hi" "j/k", ltxt16 "l"],
+    [ltxt16 "g"] ]
+
+def poolLLine (k : Nat) : LLine := llinePool.getD (k % llinePool.length) [ltxt16 "q"]
+
+/-- (l-a) every pool line alone × gap 0..1 × trail 0..1 -/
+def lfamLines : LFamily where
+  count := llinePool.length * 4
+  doc i := { items := [{ gap := i / 2 % 2, lines := [poolLLine (i / 4)] }], trail := i % 2 }
+
+/-- (l-b) each of the 95 printable characters in 7 spellings directly BEFORE `[` (`a` X `[b](c)` `z`) and directly
+    AFTER `)` (`a` `[b](c)` X `z`); a literal `!` is outside the fragment and answered `skip` -/
+def lfamEdges : LFamily where
+  count := 95 * 7 * 2
+  doc i :=
+    let c := UInt8.ofNat (32 + i / 14)
+    let t := (spellings8 c).getD (i / 2 % 7) (lit 120)
+    if i % 2 == 0 then oneLLine [.txt [lit 97, t], llink16 "b" "c", ltxt16 "z"]
+    else oneLLine [ltxt16 "a", llink16 "b" "c", .txt [t, lit 122]]
+
+/-- (l-c) each of the 95 printable characters in 7 spellings ALONE between two links -/
+def lfamBetween : LFamily where
+  count := 95 * 7
+  doc i :=
+    let c := UInt8.ofNat (32 + i / 7)
+    let t := (spellings8 c).getD (i % 7) (lit 120)
+    oneLLine [ltxt16 "a", llink16 "x" "c", .txt [t], llink16 "y" "/d", ltxt16 "z"]
+
+/-- paragraphs from base-6 digits: digit % 3 + 1 lines, digit / 3 extra blank lines in front -/
+def lshapeItems (off : Nat) : Nat → Nat → Nat → List LItem
+  | 0, _, _ => []
+  | n + 1, p, code =>
+    let d := code % 6
+    let lines := (List.range (d % 3 + 1)).map fun j => poolLLine (off + 3 * p + j)
+    { gap := d / 3, lines := lines } :: lshapeItems off n (p + 1) (code / 6)
+
+/-- (l-d) all shapes of `n` paragraphs: 1..3 lines each × gap 0..1 each × trail 0..1 × 9 rotations of the line pool -/
+def lfamShapes (n : Nat) : LFamily where
+  count := 6 ^ n * 18
+  doc i := { items := lshapeItems (i / 2 % 9 * 3) n 0 (i / 18), trail := i % 2 }
+
+/-- (l-e) the empty document and blank lines only -/
+def lfamEmpty : LFamily where
+  count := 3
+  doc i := { items := [], trail := i }
+
+def lfamilies : List LFamily := [lfamLines, lfamEdges, lfamBetween, lfamShapes 1, lfamShapes 2, lfamEmpty]
+
+def countL : Nat := lfamilies.foldl (fun acc f => acc + f.count) 0
+
+def enumLIn : List LFamily → Nat → Option LDoc
+  | [], _ => none
+  | f :: rest, i => if i < f.count then some (f.doc i) else enumLIn rest (i - f.count)
+
+def enumL (i : Nat) : Option LDoc := enumLIn lfamilies i
+
+def answerL (d : LDoc) : String :=
+  if lfragB d then s!"{hexOfBytes (spellL d)} {hexOfBytes (expectedL d)}" else "skip"
+
+def modelAnswerL (d : LDoc) : String :=
+  if !lfragB d then "skip" else
+  match GM.Convert.convertCore [] ropts (spellL d) with
+  | .ok h => if h == expectedL d then "ok" else s!"fail:model-differs {hexOfBytes h}"
+  | .error e => s!"fail:model-differs {e.str}"
+
+def specAnswerL (d : LDoc) : String :=
+  if !lfragB d then "skip" else
+  let e := lembed d
+  if expectedL d != expected e then s!"fail:spec-expected {hexOfBytes (expected e)}"
+  else if lnoExtraBlanks d && !d.items.isEmpty && spellL d != spell e then s!"fail:spec-spell {hexOfBytes (spell e)}"
+  else if !wellFormed e then "fail:spec-wellformed"
+  else "ok"
+
+/-- the stage-16 ops; `none` for every other op -/
+def withLDoc (k : LDoc → String) : List String → Option String
+  | ["lgen", s, z] => some (nat s fun seed => nat z fun size => k (genLDoc seed size))
+  | ["lenum", i] => some (nat i fun i =>
+      match enumL i with
+      | none => "end"
+      | some d => k d)
+  | _ => none
+
+/-- `lcount`, `lgen` / `lenum` and their `model` / `spec` variants -/
+def handleL : List String → Option String
+  | ["lcount"] => some (toString countL)
+  | "model" :: rest => withLDoc modelAnswerL rest
+  | "spec" :: rest => withLDoc specAnswerL rest
+  | rest => withLDoc answerL rest
+
+/-! ## stage 17: images inside the text lines (`ImgDoc`, paragraphs only; `spellImg`, `expectedImg`, `imgembed`): the
+    documents of stage 16 with every link `[t](d)` written as the image `![t](d)`, plus lines of their own -/
+
+def imgOfL : LAtomS → ImgAtomS
+  | .txt cs => .txt cs
+  | .link t d => .img t d
+
+def imgdocOfL (d : LDoc) : ImgDoc :=
+  { items := d.items.map fun it => { gap := it.gap, lines := it.lines.map (·.map imgOfL) }, trail := d.trail }
+
+def genImgDoc (seed size : Nat) : ImgDoc := imgdocOfL (genLDoc (seed + 17) size)
+
+def itxt17 (s : String) : ImgAtomS := .txt (lits s)
+def iimg17 (t d : String) : ImgAtomS := .img (strBytes t) (strBytes d)
+
+/-- lines of their own: an escaped backslash, an escaped `!`, `&excl;`, `&#33;` directly in front of the image's `!`
+    (`a\\![b](c)d`, `a\!![b](c)d`), an escaped `!` directly behind the image, an escaped `[` between `!`-text and
+    nothing else, two images touching one `!`-text, an image between parentheses -/
+def imglinePool : List ImgLine :=
+  [ [.txt [lit 97, lit 92], iimg17 "b" "c", itxt17 "d"],
+    [.txt [lit 97, ⟨33, .bs⟩], iimg17 "b" "c", itxt17 "d"],
+    [.txt [lit 97, ⟨33, .named⟩], iimg17 "b" "c", itxt17 "d"],
+    [.txt [lit 97, ⟨33, .dec 0⟩], iimg17 "b" "c", itxt17 "d"],
+    [.txt [lit 97, ⟨33, .bs⟩, ⟨33, .bs⟩], iimg17 "b" "c", .txt [⟨33, .bs⟩, lit 100]],
+    [.txt [lit 97, ⟨33, .bs⟩, lit 91], iimg17 "b" "c", .txt [lit 93, lit 100]],
+    [itxt17 "a", iimg17 "b" "c", .txt [⟨33, .bs⟩], iimg17 "e" "/f", itxt17 "g"],
+    [.txt [lit 97, lit 92, lit 92], iimg17 "b" "c", .txt [lit 92, lit 100]],
+    [itxt17 "a(", iimg17 "alt12" "path/to/img", itxt17 ")d"] ]
+
+/-- (img-own) every line of `imglinePool` alone × gap 0..1 × trail 0..1, and as the second of two lines -/
+def imgfamOwnCount : Nat := imglinePool.length * 5
+
+def imgfamOwn (i : Nat) : ImgDoc :=
+  let l := imglinePool.getD (i / 5) [itxt17 "q"]
+  if i % 5 == 4 then { items := [{ lines := [[itxt17 "x", iimg17 "y" "z", itxt17 "w"], l] }] }
+  else { items := [{ gap := i / 2 % 2, lines := [l] }], trail := i % 2 }
+
+def countImg : Nat := countL + imgfamOwnCount
+
+def enumImg (i : Nat) : Option ImgDoc :=
+  if i < countL then (enumL i).map imgdocOfL
+  else if i < countImg then some (imgfamOwn (i - countL))
+  else none
+
+def answerImg (d : ImgDoc) : String :=
+  if imgfragB d then s!"{hexOfBytes (spellImg d)} {hexOfBytes (expectedImg d)}" else "skip"
+
+def modelAnswerImg (d : ImgDoc) : String :=
+  if !imgfragB d then "skip" else
+  match GM.Convert.convertCore [] ropts (spellImg d) with
+  | .ok h => if h == expectedImg d then "ok" else s!"fail:model-differs {hexOfBytes h}"
+  | .error e => s!"fail:model-differs {e.str}"
+
+def specAnswerImg (d : ImgDoc) : String :=
+  if !imgfragB d then "skip" else
+  let e := imgembed d
+  if expectedImg d != expected e then s!"fail:spec-expected {hexOfBytes (expected e)}"
+  else if imgnoExtraBlanks d && !d.items.isEmpty && spellImg d != spell e then s!"fail:spec-spell {hexOfBytes (spell e)}"
+  else if !wellFormed e then "fail:spec-wellformed"
+  else "ok"
+
+/-- the stage-17 ops; `none` for every other op -/
+def withImgDoc (k : ImgDoc → String) : List String → Option String
+  | ["imggen", s, z] => some (nat s fun seed => nat z fun size => k (genImgDoc seed size))
+  | ["imgenum", i] => some (nat i fun i =>
+      match enumImg i with
+      | none => "end"
+      | some d => k d)
+  | _ => none
+
+/-- `imgcount`, `imggen` / `imgenum` and their `model` / `spec` variants -/
+def handleImg : List String → Option String
+  | ["imgcount"] => some (toString countImg)
+  | "model" :: rest => withImgDoc modelAnswerImg rest
+  | "spec" :: rest => withImgDoc specAnswerImg rest
+  | rest => withImgDoc answerImg rest
+
+/-! ## stage 18: URI autolinks inside the text lines (`ADoc`, paragraphs only; `spellAD`, `expectedAD`, `aembed`): the
+    documents of stage 16 with every link `[t](d)` written as the autolink `<t':d>` (`t'`: the digits of `t` replaced by
+    letters, `x` appended to a single character), plus lines and random documents of their own -/
+
+/-- letters only, at least two -/
+def schemeOf18 (t : Bytes) : Bytes :=
+  let s := t.map fun c => if isLetter c then c else if isDigit c then c + 49 else 113
+  if s.length < 2 then s ++ [120] else s
+
+def autoOfL : LAtomS → AAtomS
+  | .txt cs => .txt cs
+  | .link t d => .auto (schemeOf18 t) d
+
+def adocOfL (d : LDoc) : ADoc :=
+  { items := d.items.map fun it => { gap := it.gap, lines := it.lines.map (·.map autoOfL) }, trail := d.trail }
+
+/-- `n` bytes behind the colon: `/` 20 %, `.` 15 %, else a letter or digit -/
+def genRest18 : Nat → G Bytes
+  | 0 => return []
+  | n + 1 => do
+    let r ← below 100
+    let c ← if r < 20 then pure 47 else if r < 35 then pure 46 else pickL alnums
+    let rest ← genRest18 n
+    return c :: rest
+
+def genLetters18 : Nat → G Bytes
+  | 0 => return []
+  | n + 1 => do
+    let c ← pickL letters
+    let rest ← genLetters18 n
+    return c :: rest
+
+/-- the scheme: 2..8 letters 80 %, 9..32 letters 20 % -/
+def genScheme18 : G Bytes := do
+  if (← chance 80) then genLetters18 (2 + (← below 7)) else genLetters18 (9 + (← below 24))
+
+/-- every link of a stage-16 line replaced by a random autolink -/
+def genAAtoms : List LAtomS → G (List AAtomS)
+  | [] => return []
+  | .txt cs :: rest => do
+    let r ← genAAtoms rest
+    return .txt cs :: r
+  | .link _ _ :: rest => do
+    let s ← genScheme18
+    let u ← genRest18 (1 + (← below 8))
+    let r ← genAAtoms rest
+    return .auto s u :: r
+
+def genALines : List LLine → G (List ALine)
+  | [] => return []
+  | l :: rest => do
+    let a ← genAAtoms l
+    let r ← genALines rest
+    return a :: r
+
+def genAItems : List LItem → G (List AItem)
+  | [] => return []
+  | it :: rest => do
+    let ls ← genALines it.lines
+    let r ← genAItems rest
+    return { gap := it.gap, lines := ls } :: r
+
+def genADoc (seed size : Nat) : ADoc :=
+  let d := genLDoc (seed + 18) size
+  { items := (genAItems d.items |>.run { s := UInt64.ofNat (seed * 2654435761 + size + 18018) }).1, trail := d.trail }
+
+def atxt18 (s : String) : AAtomS := .txt (lits s)
+def aauto18 (s r : String) : AAtomS := .auto (strBytes s) (strBytes r)
+
+def letters32 : String := "abcdefghijklmnopqrstuvwxyzABCDEF"
+
+/-- lines of their own: schemes of 1 (outside the fragment), 2, 3, 32 and 33 (outside) letters, upper case, well-known
+    schemes, `javascript`; a rest ending in `.`, in `/`, `//host.tld/path`, a rest of one `.`, of one `/`, of digits; an
+    escaped `<` / `>` / backslash next to the autolink, `&lt;` in front of it, two autolinks touching one character -/
+def alinePool : List ALine :=
+  [ [atxt18 "a", aauto18 "b" "c", atxt18 "d"],
+    [atxt18 "a", aauto18 "ab" "c", atxt18 "d"],
+    [atxt18 "a", aauto18 "abc" "c", atxt18 "d"],
+    [atxt18 "a", aauto18 letters32 "c", atxt18 "d"],
+    [atxt18 "a", aauto18 (letters32 ++ "G") "c", atxt18 "d"],
+    [atxt18 "a", aauto18 "HTTP" "//EXAMPLE.COM/", atxt18 "d"],
+    [atxt18 "see ", aauto18 "https" "//host.tld/path/to.html", atxt18 " for more"],
+    [atxt18 "a", aauto18 "mailto" "me", atxt18 "d"],
+    [atxt18 "a", aauto18 "javascript" "x", atxt18 "d"],
+    [atxt18 "a", aauto18 "data" "x", atxt18 "d"],
+    [atxt18 "a", aauto18 "ab" "c.", atxt18 "d"],
+    [atxt18 "a", aauto18 "ab" "c/", atxt18 "d"],
+    [atxt18 "a", aauto18 "ab" ".", atxt18 "d"],
+    [atxt18 "a", aauto18 "ab" "/", atxt18 "d"],
+    [atxt18 "a", aauto18 "ab" "..", atxt18 "d"],
+    [atxt18 "a", aauto18 "ab" "123", atxt18 "4"],
+    [.txt [lit 97, lit 60], aauto18 "ab" "c", .txt [lit 62, lit 100]],
+    [.txt [lit 97, ⟨62, .lit⟩], aauto18 "ab" "c", .txt [lit 60, lit 100]],
+    [.txt [lit 97, ⟨60, .named⟩], aauto18 "ab" "c", .txt [⟨62, .named⟩, lit 100]],
+    [.txt [lit 97, lit 92], aauto18 "ab" "c", .txt [lit 92, lit 100]],
+    [atxt18 "a", aauto18 "ab" "c", .txt [lit 60], aauto18 "de" "f", atxt18 "g"],
+    [atxt18 "a", aauto18 "ab" "c", .txt [⟨62, .lit⟩], aauto18 "de" "f", atxt18 "g"],
+    [atxt18 "a ", aauto18 "ab" "c", atxt18 " ", aauto18 "de" "f.g", atxt18 " h"] ]
+
+/-- (a-own) every line of `alinePool` alone × gap 0..1 × trail 0..1, and as the second of two lines -/
+def afamOwnCount : Nat := alinePool.length * 5
+
+def afamOwn (i : Nat) : ADoc :=
+  let l := alinePool.getD (i / 5) [atxt18 "q"]
+  if i % 5 == 4 then { items := [{ lines := [[atxt18 "x", aauto18 "yy" "z", atxt18 "w"], l] }] }
+  else { items := [{ gap := i / 2 % 2, lines := [l] }], trail := i % 2 }
+
+def countA : Nat := countL + afamOwnCount
+
+def enumA (i : Nat) : Option ADoc :=
+  if i < countL then (enumL i).map adocOfL
+  else if i < countA then some (afamOwn (i - countL))
+  else none
+
+def answerA (d : ADoc) : String :=
+  if afragB d then s!"{hexOfBytes (spellAD d)} {hexOfBytes (expectedAD d)}" else "skip"
+
+def modelAnswerA (d : ADoc) : String :=
+  if !afragB d then "skip" else
+  match GM.Convert.convertCore [] ropts (spellAD d) with
+  | .ok h => if h == expectedAD d then "ok" else s!"fail:model-differs {hexOfBytes h}"
+  | .error e => s!"fail:model-differs {e.str}"
+
+def specAnswerA (d : ADoc) : String :=
+  if !afragB d then "skip" else
+  let e := aembed d
+  if expectedAD d != expected e then s!"fail:spec-expected {hexOfBytes (expected e)}"
+  else if anoExtraBlanks d && !d.items.isEmpty && spellAD d != spell e then s!"fail:spec-spell {hexOfBytes (spell e)}"
+  else if !wellFormed e then "fail:spec-wellformed"
+  else "ok"
+
+/-- the stage-18 ops; `none` for every other op -/
+def withADoc (k : ADoc → String) : List String → Option String
+  | ["agen", s, z] => some (nat s fun seed => nat z fun size => k (genADoc seed size))
+  | ["aenum", i] => some (nat i fun i =>
+      match enumA i with
+      | none => "end"
+      | some d => k d)
+  | _ => none
+
+/-- `acount`, `agen` / `aenum` and their `model` / `spec` variants -/
+def handleA : List String → Option String
+  | ["acount"] => some (toString countA)
+  | "model" :: rest => withADoc modelAnswerA rest
+  | "spec" :: rest => withADoc specAnswerA rest
+  | rest => withADoc answerA rest
+
+/-! ## stage 19: raw inline HTML tags inside the text lines (`H19Doc`, paragraphs only; `spellH19`, `expectedH19`,
+    `h19embed`): the documents of stage 16 with every link `[t](d)` written as the tag `<t'>` (destination of odd length)
+    or `</t'>` (`t'`: `t` with `h` in front when it begins with a digit), plus lines of their own -/
+
+def tagOf19 (t : Bytes) : Bytes :=
+  match t with
+  | c :: _ => if isLetter c then t else 104 :: t
+  | [] => [104]
+
+def h19OfL : LAtomS → H19AtomS
+  | .txt cs => .txt cs
+  | .link t d => if d.length % 2 == 1 then .open (tagOf19 t) else .close (tagOf19 t)
+
+def h19docOfL (d : LDoc) : H19Doc :=
+  { items := d.items.map fun it => { gap := it.gap, lines := it.lines.map (·.map h19OfL) }, trail := d.trail }
+
+def genH19Doc (seed size : Nat) : H19Doc := h19docOfL (genLDoc (seed + 19) size)
+
+def htxt19 (s : String) : H19AtomS := .txt (lits s)
+def hopen19 (s : String) : H19AtomS := .open (strBytes s)
+def hclose19 (s : String) : H19AtomS := .close (strBytes s)
+
+/-- lines of their own: an open and a closing tag around text, tag names of 1, 2 and 10 characters, upper case, with
+    digits, the names of block-level elements (`div`, `p`, `pre`, `script`, `style`, `textarea`) in inline position,
+    `<a>` (no autolink), a closing tag first, escaped `<` / `>` / backslash and `&lt;` next to a tag, tags between spaces,
+    a name that begins with a digit or contains `-` (outside the fragment) -/
+def h19linePool : List H19Line :=
+  [ [htxt19 "a", hopen19 "b", htxt19 "c", hclose19 "b", htxt19 "d"],
+    [htxt19 "a", hopen19 "x", htxt19 "d"],
+    [htxt19 "a", hclose19 "x", htxt19 "d"],
+    [htxt19 "a", hopen19 "em", htxt19 "c", hclose19 "em", htxt19 "d"],
+    [htxt19 "a", hopen19 "abcdefghij", htxt19 "c", hclose19 "abcdefghij", htxt19 "d"],
+    [htxt19 "a", hopen19 "SPAN", htxt19 "c", hclose19 "Span", htxt19 "d"],
+    [htxt19 "a", hopen19 "h1", htxt19 "c", hclose19 "h1", htxt19 "d"],
+    [htxt19 "a", hopen19 "x2y3", htxt19 "c", hclose19 "z9", htxt19 "d"],
+    [htxt19 "a", hopen19 "div", htxt19 "c", hclose19 "div", htxt19 "d"],
+    [htxt19 "a", hopen19 "p", htxt19 "c", hclose19 "p", htxt19 "d"],
+    [htxt19 "a", hopen19 "pre", htxt19 "c", hclose19 "pre", htxt19 "d"],
+    [htxt19 "a", hopen19 "script", htxt19 "c", hclose19 "script", htxt19 "d"],
+    [htxt19 "a", hopen19 "style", htxt19 "c", hclose19 "style", htxt19 "d"],
+    [htxt19 "a", hopen19 "textarea", htxt19 "c", hclose19 "textarea", htxt19 "d"],
+    [htxt19 "a", hopen19 "a", htxt19 "c", hclose19 "a", htxt19 "d"],
+    [htxt19 "a ", hopen19 "b", htxt19 " c ", hclose19 "b", htxt19 " d"],
+    [.txt [lit 97, lit 60], hopen19 "b", .txt [lit 62, lit 100]],
+    [.txt [lit 97, ⟨62, .lit⟩], hclose19 "b", .txt [lit 60, lit 100]],
+    [.txt [lit 97, ⟨60, .named⟩], hopen19 "b", .txt [⟨62, .named⟩, lit 100]],
+    [.txt [lit 97, lit 92], hopen19 "b", .txt [lit 92, lit 100]],
+    [htxt19 "a", hopen19 "b", .txt [lit 60], hclose19 "b", htxt19 "g"],
+    [htxt19 "a", hopen19 "b", htxt19 "c *d* e", hclose19 "b", htxt19 "g"],
+    [htxt19 "a", hopen19 "1b", htxt19 "d"],
+    [htxt19 "a", hopen19 "b-c", htxt19 "d"],
+    [htxt19 "a", hopen19 "", htxt19 "d"] ]
+
+/-- (h19-own) every line of `h19linePool` alone × gap 0..1 × trail 0..1, and as the second of two lines -/
+def h19famOwnCount : Nat := h19linePool.length * 5
+
+def h19famOwn (i : Nat) : H19Doc :=
+  let l := h19linePool.getD (i / 5) [htxt19 "q"]
+  if i % 5 == 4 then { items := [{ lines := [[htxt19 "x", hopen19 "y", htxt19 "w"], l] }] }
+  else { items := [{ gap := i / 2 % 2, lines := [l] }], trail := i % 2 }
+
+def countH19 : Nat := countL + h19famOwnCount
+
+def enumH19 (i : Nat) : Option H19Doc :=
+  if i < countL then (enumL i).map h19docOfL
+  else if i < countH19 then some (h19famOwn (i - countL))
+  else none
+
+def answerH19 (d : H19Doc) : String :=
+  if h19fragB d then s!"{hexOfBytes (spellH19 d)} {hexOfBytes (expectedH19 d)}" else "skip"
+
+def modelAnswerH19 (d : H19Doc) : String :=
+  if !h19fragB d then "skip" else
+  match GM.Convert.convertCore [] ropts (spellH19 d) with
+  | .ok h => if h == expectedH19 d then "ok" else s!"fail:model-differs {hexOfBytes h}"
+  | .error e => s!"fail:model-differs {e.str}"
+
+def specAnswerH19 (d : H19Doc) : String :=
+  if !h19fragB d then "skip" else
+  let e := h19embed d
+  if expectedH19 d != expected e then s!"fail:spec-expected {hexOfBytes (expected e)}"
+  else if h19noExtraBlanks d && !d.items.isEmpty && spellH19 d != spell e then s!"fail:spec-spell {hexOfBytes (spell e)}"
+  else if !wellFormed e then "fail:spec-wellformed"
+  else "ok"
+
+/-- the stage-19 ops; `none` for every other op -/
+def withH19Doc (k : H19Doc → String) : List String → Option String
+  | ["h19gen", s, z] => some (nat s fun seed => nat z fun size => k (genH19Doc seed size))
+  | ["h19enum", i] => some (nat i fun i =>
+      match enumH19 i with
+      | none => "end"
+      | some d => k d)
+  | _ => none
+
+/-- `h19count`, `h19gen` / `h19enum` and their `model` / `spec` variants -/
+def handleH19 : List String → Option String
+  | ["h19count"] => some (toString countH19)
+  | "model" :: rest => withH19Doc modelAnswerH19 rest
+  | "spec" :: rest => withH19Doc specAnswerH19 rest
+  | rest => withH19Doc answerH19 rest
+
+/-! ## stage 20: underscore emphasis between the runs of text (`UnDoc`, paragraphs only; `spellUn`, `expectedUn`,
+    `unembed`) -/
+
+/-- a character whose source bytes begin and end with white space or punctuation: a space 40 %, punctuation in any
+    spelling 40 %, a letter or digit written as a numeric reference 20 % -/
+def genUnSep : G TChar := do
+  let r ← below 100
+  if r < 40 then return lit 32
+  else if r < 80 then return inFrag ⟨← pickL punct, ← genSpelling⟩
+  else if (← chance 50) then return ⟨← pickL alnums, .dec (← below 3)⟩
+  else return ⟨← pickL alnums, .hex (← below 3) (← chance 50) (← chance 50)⟩
+
+def genUnAtom : G UnAtomS := do
+  let c ← genInfo (1 + (← below 6))
+  if (← chance 50) then return .em c else return .strong c
+
+/-- text that may stand behind a closing run (`front`) / in front of an opening run (`back`) -/
+def genUnText (front back : Bool) : G (List TChar) := do
+  let t ← genEdgeText front back
+  let t ← match t.head? with
+    | some a => if front && !unafterOK a then (do return (← genUnSep) :: t) else pure t
+    | none => pure t
+  match t.getLast? with
+    | some z => if back && !unbeforeOK z then (do return t ++ [← genUnSep]) else pure t
+    | none => pure t
+
+/-- `n` further emphasis atoms, each followed by a text atom (the last one ends with a literal letter or digit) -/
+def genUnTail : Nat → G (List UnAtomS)
+  | 0 => return []
+  | n + 1 => do
+    let c ← genUnAtom
+    let t ← genUnText true (n != 0)
+    let t ← if t.isEmpty then (do return [← genUnSep]) else pure t
+    let t ← if n == 0 then (do return t ++ [lit (← pickL alnums)]) else pure t
+    let rest ← genUnTail n
+    return c :: .txt t :: rest
+
+/-- a line with 1..3 emphasis atoms -/
+def genUnLine : G UnLine := do
+  let a := lit (← pickL letters)
+  let t ← genUnText false true
+  let t ← if t.isEmpty then (do return [← genUnSep]) else pure t
+  let rest ← genUnTail (1 + (← below 3))
+  return .txt (a :: t) :: rest
+
+def genUnLines : Nat → G (List UnLine)
+  | 0 => return []
+  | n + 1 => do
+    let l ← genUnLine
+    let rest ← genUnLines n
+    return l :: rest
+
+def genUnItems : Nat → G (List UnItem)
+  | 0 => return []
+  | n + 1 => do
+    let gap ← below 3
+    let ls ← genUnLines (1 + (← below 3))
+    let rest ← genUnItems n
+    return { gap := gap, lines := ls } :: rest
+
+def genUnDocM (size : Nat) : G UnDoc := do
+  let n ← below (max size 1)
+  let items ← genUnItems (n + 1)
+  let trail ← below 3
+  return { items := items, trail := trail }
+
+def genUnDoc (seed size : Nat) : UnDoc :=
+  (genUnDocM size |>.run { s := UInt64.ofNat (seed * 2654435761 + size + 20020) }).1
+
+structure UnFamily where
+  count : Nat
+  doc : Nat → UnDoc
+
+def oneUnLine (l : UnLine) : UnDoc := { items := [{ lines := [l] }] }
+
+def untxt (s : String) : UnAtomS := .txt (lits s)
+def unem (s : String) : UnAtomS := .em (strBytes s)
+def unstrong (s : String) : UnAtomS := .strong (strBytes s)
+
+def unKind (k : Nat) (s : String) : UnAtomS := if k % 2 == 0 then unem s else unstrong s
+
+/-- lines of the fixed shapes: between spaces, between punctuation, two and three emphases of either kind with one
+    character between them, longer contents, an escaped `_` / `*` directly outside the delimiters, numeric references
+    of letters directly outside -/
+def unlinePool : List UnLine :=
+  [ [untxt "a ", unem "b", untxt " c"],
+    [untxt "a ", unstrong "b", untxt " c"],
+    [untxt "a(", unem "b", untxt ")c"],
+    [untxt "a.", unstrong "b", untxt ",c"],
+    [untxt "a ", unem "b", untxt " ", unem "d", untxt " e"],
+    [untxt "a ", unem "b", untxt " ", unstrong "d", untxt " e"],
+    [untxt "a ", unstrong "b", untxt "-", unem "d", untxt " e"],
+    [untxt "a ", unstrong "b", untxt ".", unstrong "d", untxt ".e"],
+    [untxt "a ", unem "x1", untxt " b ", unstrong "Yz", untxt " c ", unem "q", untxt " d"],
+    [untxt "ab cd ", unem "word", untxt " e"],
+    [untxt "a ", unstrong "123456", untxt " 7"],
+    [.txt [lit 97, lit 95], unem "x", .txt [lit 95, lit 98]],
+    [.txt [lit 97, lit 95], unstrong "x", .txt [lit 95, lit 98]],
+    [.txt [lit 97, lit 42], unem "x", .txt [lit 42, lit 98]],
+    [.txt [lit 97, lit 92], unem "x", .txt [lit 92, lit 98]],
+    [.txt [lit 97, ⟨98, .dec 0⟩], unem "x", .txt [⟨99, .hex 0 false false⟩, lit 100]],
+    [untxt "a ", unem "x", .txt [lit 95], unem "y", untxt " c"],
+    [untxt "a ", unem "x", .txt [lit 95], unstrong "y", untxt " c"],
+    [untxt "g"] ]
+
+def poolUnLine (k : Nat) : UnLine := unlinePool.getD (k % unlinePool.length) [untxt "q"]
+
+/-- (un-a) every pool line alone × gap 0..1 × trail 0..1 -/
+def unfamLines : UnFamily where
+  count := unlinePool.length * 4
+  doc i := { items := [{ gap := i / 2 % 2, lines := [poolUnLine (i / 4)] }], trail := i % 2 }
+
+/-- the edge documents: each of the 95 printable characters in 7 spellings directly BEFORE the opening
+    (`a` X `_x_` ` z`) and directly AFTER the closing run (`a ` `_x_` X `z`), for `_` and for `__` -/
+def unEdgeDoc (i : Nat) : UnDoc :=
+  let c := UInt8.ofNat (32 + i / 28)
+  let t := (spellings8 c).getD (i / 4 % 7) (lit 120)
+  let e := unKind (i / 2 % 2) "x"
+  if i % 2 == 0 then oneUnLine [.txt [lit 97, t], e, untxt " z"]
+  else oneUnLine [untxt "a ", e, .txt [t, lit 122]]
+
+/-- (un-b) the edge documents; those outside the fragment (a letter or digit as neighbouring source byte, a literal
+    `!`) are answered `skip` here and are the non-members of `unnon` -/
+def unfamEdges : UnFamily where
+  count := 95 * 7 * 2 * 2
+  doc := unEdgeDoc
+
+/-- (un-c) each of the 95 printable characters in 7 spellings ALONE between two emphasis atoms, all 4 ordered pairs
+    of {`_x_`, `__x__`} -/
+def unfamBetween : UnFamily where
+  count := 95 * 7 * 4
+  doc i :=
+    let c := UInt8.ofNat (32 + i / 28)
+    let t := (spellings8 c).getD (i / 4 % 7) (lit 120)
+    oneUnLine [untxt "a ", unKind (i / 2 % 2) "x", .txt [t], unKind (i % 2) "w", untxt " z"]
+
+/-- paragraphs from base-6 digits: digit % 3 + 1 lines, digit / 3 extra blank lines in front -/
+def unshapeItems (off : Nat) : Nat → Nat → Nat → List UnItem
+  | 0, _, _ => []
+  | n + 1, p, code =>
+    let d := code % 6
+    let lines := (List.range (d % 3 + 1)).map fun j => poolUnLine (off + 3 * p + j)
+    { gap := d / 3, lines := lines } :: unshapeItems off n (p + 1) (code / 6)
+
+/-- (un-d) all shapes of `n` paragraphs: 1..3 lines each × gap 0..1 each × trail 0..1 × 6 rotations of the line pool -/
+def unfamShapes (n : Nat) : UnFamily where
+  count := 6 ^ n * 12
+  doc i := { items := unshapeItems (i / 2 % 6 * 3) n 0 (i / 12), trail := i % 2 }
+
+/-- (un-e) the empty document and blank lines only -/
+def unfamEmpty : UnFamily where
+  count := 3
+  doc i := { items := [], trail := i }
+
+def unfamilies : List UnFamily := [unfamLines, unfamEdges, unfamBetween, unfamShapes 1, unfamShapes 2, unfamEmpty]
+
+def countUn : Nat := unfamilies.foldl (fun acc f => acc + f.count) 0
+
+def enumUnIn : List UnFamily → Nat → Option UnDoc
+  | [], _ => none
+  | f :: rest, i => if i < f.count then some (f.doc i) else enumUnIn rest (i - f.count)
+
+def enumUn (i : Nat) : Option UnDoc := enumUnIn unfamilies i
+
+def answerUn (d : UnDoc) : String :=
+  if unfragB d then s!"{hexOfBytes (spellUn d)} {hexOfBytes (expectedUn d)}" else "skip"
+
+def modelAnswerUn (d : UnDoc) : String :=
+  if !unfragB d then "skip" else
+  match GM.Convert.convertCore [] ropts (spellUn d) with
+  | .ok h => if h == expectedUn d then "ok" else s!"fail:model-differs {hexOfBytes h}"
+  | .error e => s!"fail:model-differs {e.str}"
+
+def specAnswerUn (d : UnDoc) : String :=
+  if !unfragB d then "skip" else
+  let e := unembed d
+  if expectedUn d != expected e then s!"fail:spec-expected {hexOfBytes (expected e)}"
+  else if unnoExtraBlanks d && !d.items.isEmpty && spellUn d != spell e then s!"fail:spec-spell {hexOfBytes (spell e)}"
+  else if !wellFormed e then "fail:spec-wellformed"
+  else "ok"
+
+/-! the NON-members: lines with ONE emphasis atom that satisfy every line condition but the neighbour condition. The
+    specification reads them as literal text (the run cannot open / cannot close: 6.2 rules 2, 4, 6, 8) -/
+
+/-- the line conditions without `unneighOK` -/
+def unrelaxedB (d : UnDoc) : Bool :=
+  d.items.all fun it => !it.lines.isEmpty && it.lines.all fun l =>
+    unalternatingS l && unfirstOKS l && unlastOKS l && l.all unatomOKS
+
+def litUnAtom : UnAtomS → Bytes
+  | .txt cs => escHtml (plain cs)
+  | a => spellUnAtom a
+
+/-- the HTML of a document whose emphasis atoms all stay literal text -/
+def literalUn (d : UnDoc) : Bytes :=
+  d.items.flatMap fun it => strBytes "<p>" ++ joinNl (it.lines.map fun l => l.flatMap litUnAtom) ++ strBytes "</p>\n"
+
+/-- `a_b_c`, `a_b_ c`, `a _b_c` and the same with `__`, then the edge documents -/
+def unNonDoc (i : Nat) : UnDoc :=
+  match i with
+  | 0 => oneUnLine [untxt "a", unem "b", untxt "c"]
+  | 1 => oneUnLine [untxt "a", unem "b", untxt " c"]
+  | 2 => oneUnLine [untxt "a ", unem "b", untxt "c"]
+  | 3 => oneUnLine [untxt "a", unstrong "b", untxt "c"]
+  | 4 => oneUnLine [untxt "a", unstrong "b", untxt " c"]
+  | 5 => oneUnLine [untxt "a ", unstrong "b", untxt "c"]
+  | i + 6 => unEdgeDoc i
+
+def countUnNon : Nat := 6 + 95 * 7 * 2 * 2
+
+def unNonOK (d : UnDoc) : Bool := !unfragB d && unrelaxedB d
+
+def answerUnNon (d : UnDoc) : String :=
+  if unNonOK d then s!"{hexOfBytes (spellUn d)} {hexOfBytes (literalUn d)}" else "skip"
+
+def modelAnswerUnNon (d : UnDoc) : String :=
+  if !unNonOK d then "skip" else
+  match GM.Convert.convertCore [] ropts (spellUn d) with
+  | .ok h => if h == literalUn d then "ok" else s!"fail:model-differs {hexOfBytes h}"
+  | .error e => s!"fail:model-differs {e.str}"
+
+/-- the spec model on a non-member: `unembed d` is not the document's reading; what can be checked is that the spec
+    model itself does not write it with `_` (its `spell` falls back to `*` next to a letter or digit) -/
+def specAnswerUnNon (d : UnDoc) : String :=
+  if !unNonOK d then "skip"
+  else if spell (unembed d) == spellUn d then "fail:spec-spell-underscore" else "ok"
+
+def withUnDoc (k : UnDoc → String) (kn : UnDoc → String) : List String → Option String
+  | ["ungen", s, z] => some (nat s fun seed => nat z fun size => k (genUnDoc seed size))
+  | ["unenum", i] => some (nat i fun i =>
+      match enumUn i with
+      | none => "end"
+      | some d => k d)
+  | ["unnon", i] => some (nat i fun i => if i < countUnNon then kn (unNonDoc i) else "end")
+  | _ => none
+
+/-- `uncount`, `unnoncount`, `ungen` / `unenum` / `unnon` and their `model` / `spec` variants -/
+def handleUn : List String → Option String
+  | ["uncount"] => some (toString countUn)
+  | ["unnoncount"] => some (toString countUnNon)
+  | "model" :: rest => withUnDoc modelAnswerUn modelAnswerUnNon rest
+  | "spec" :: rest => withUnDoc specAnswerUn specAnswerUnNon rest
+  | rest => withUnDoc answerUn answerUnNon rest
 
 end CMFrag
 
@@ -628,14 +2648,163 @@ end CMFrag
     blocks): `cmfrag hgen <seed> <size>` / `cmfrag henum <i>` / `cmfrag hcount`, `cmfrag model hgen|henum …`,
     `cmfrag spec hgen|henum …` with `spellH`, `expectedH`, `hembed`. Stage 6 (`KDoc`: the same blocks, directly behind
     each other where the specification allows it): `cmfrag kgen <seed> <size>` / `cmfrag kenum <i>` / `cmfrag kcount`,
-    `cmfrag model kgen|kenum …`, `cmfrag spec kgen|kenum …` with `spellK`, `expectedK`, `kembed` -/
+    `cmfrag model kgen|kenum …`, `cmfrag spec kgen|kenum …` with `spellK`, `expectedK`, `kembed`. Stage 7 (the stage-6
+    documents with `trail` forced to 0, written without the final line feed; `skip` when not `kfragEB`):
+    `cmfrag egen <seed> <size>` / `cmfrag eenum <i>` / `cmfrag ecount` (= `kcount`), `cmfrag model egen|eenum …`,
+    `cmfrag spec egen|eenum …` with `spellKE`, `expectedK`, `kembedE`. Stage 8 (`RDoc`: paragraphs whose lines contain
+    code spans): `cmfrag rgen <seed> <size>` / `cmfrag renum <i>` / `cmfrag rcount`, `cmfrag model rgen|renum …`,
+    `cmfrag spec rgen|renum …` with `spellR`, `expectedR`, `rembed`. Stage 9 (`BDoc`: paragraphs whose lines may end
+    in a hard line break written with a backslash): `cmfrag bgen <seed> <size>` / `cmfrag benum <i>` / `cmfrag bcount`,
+    `cmfrag model bgen|benum …`, `cmfrag spec bgen|benum …` with `spellBD`, `expectedBD`, `bembed`. Stage 10 (a stage-6
+    document inside one block quote, its source free of list / link-label starting bytes; `skip` when not `qfragB`):
+    `cmfrag qgen <seed> <size>` / `cmfrag qenum <i>` / `cmfrag qcount`, `cmfrag model qgen|qenum …`,
+    `cmfrag spec qgen|qenum …` with `spellQ`, `expectedQ`, `qembed`; `cmfrag qspell qgen|qenum …` → how
+    `spell (qembed d)` compares with `spellQ d` (`same` / `blank` / `extra` / `differs <hex>`). Stage 11 (`EDoc`:
+    paragraphs whose lines contain code spans, `*x*` and `**x**`): `cmfrag emgen <seed> <size>` / `cmfrag emenum <i>` /
+    `cmfrag emcount`, `cmfrag model emgen|emenum …`, `cmfrag spec emgen|emenum …` with `spellE`, `expectedE`, `eembed`. Stage 10 without the
+    final line feed (the documents of `qgen` / `qenum` with `trail` forced to 0; `skip` when not `qfragEB`):
+    `cmfrag qegen <seed> <size>` / `cmfrag qeenum <i>` / `cmfrag qecount` (= `qcount`), `cmfrag model qegen|qeenum …`,
+    `cmfrag spec qegen|qeenum …` with `spellQE`, `expectedQ`, `qembedE`. Stage 12 (`IDoc`: the stage-6 blocks and
+    indented code blocks): `cmfrag igen <seed> <size>` / `cmfrag ienum <i>` / `cmfrag icount`,
+    `cmfrag model igen|ienum …`, `cmfrag spec igen|ienum …` with `spellIc`, `expectedI`, `iembed`; the same documents with
+    `trail` forced to 0, written without the final line feed (`skip` when not `ifragEB`): `cmfrag iegen <seed> <size>` /
+    `cmfrag ieenum <i>` / `cmfrag iecount` (= `icount`), with `spellIcE`, `expectedI`, `iembedE` -/
 def handleCMFrag : List String → String
+  -- stage 20 (`UnDoc`: paragraphs whose lines contain `_x_` / `__x__`; `unnon`: the non-members that stay literal): Driver.CMFrag.handleUn
+  | ["uncount"] => (CMFrag.handleUn ["uncount"]).getD bad
+  | ["unnoncount"] => (CMFrag.handleUn ["unnoncount"]).getD bad
+  | ["ungen", s, z] => (CMFrag.handleUn ["ungen", s, z]).getD bad
+  | ["unenum", i] => (CMFrag.handleUn ["unenum", i]).getD bad
+  | ["unnon", i] => (CMFrag.handleUn ["unnon", i]).getD bad
+  | ["model", "ungen", s, z] => (CMFrag.handleUn ["model", "ungen", s, z]).getD bad
+  | ["model", "unenum", i] => (CMFrag.handleUn ["model", "unenum", i]).getD bad
+  | ["model", "unnon", i] => (CMFrag.handleUn ["model", "unnon", i]).getD bad
+  | ["spec", "ungen", s, z] => (CMFrag.handleUn ["spec", "ungen", s, z]).getD bad
+  | ["spec", "unenum", i] => (CMFrag.handleUn ["spec", "unenum", i]).getD bad
+  | ["spec", "unnon", i] => (CMFrag.handleUn ["spec", "unnon", i]).getD bad
+  -- stage 19 (`H19Doc`: paragraphs whose lines contain raw HTML tags `<n>` / `</n>`): Driver.CMFrag.handleH19
+  | ["h19count"] => (CMFrag.handleH19 ["h19count"]).getD bad
+  | ["h19gen", s, z] => (CMFrag.handleH19 ["h19gen", s, z]).getD bad
+  | ["h19enum", i] => (CMFrag.handleH19 ["h19enum", i]).getD bad
+  | ["model", "h19gen", s, z] => (CMFrag.handleH19 ["model", "h19gen", s, z]).getD bad
+  | ["model", "h19enum", i] => (CMFrag.handleH19 ["model", "h19enum", i]).getD bad
+  | ["spec", "h19gen", s, z] => (CMFrag.handleH19 ["spec", "h19gen", s, z]).getD bad
+  | ["spec", "h19enum", i] => (CMFrag.handleH19 ["spec", "h19enum", i]).getD bad
+  -- stage 18 (`ADoc`: paragraphs whose lines contain URI autolinks `<s:r>`): Driver.CMFrag.handleA
+  | ["acount"] => (CMFrag.handleA ["acount"]).getD bad
+  | ["agen", s, z] => (CMFrag.handleA ["agen", s, z]).getD bad
+  | ["aenum", i] => (CMFrag.handleA ["aenum", i]).getD bad
+  | ["model", "agen", s, z] => (CMFrag.handleA ["model", "agen", s, z]).getD bad
+  | ["model", "aenum", i] => (CMFrag.handleA ["model", "aenum", i]).getD bad
+  | ["spec", "agen", s, z] => (CMFrag.handleA ["spec", "agen", s, z]).getD bad
+  | ["spec", "aenum", i] => (CMFrag.handleA ["spec", "aenum", i]).getD bad
+  -- stage 17 (`ImgDoc`: paragraphs whose lines contain images `![t](d)`): Driver.CMFrag.handleImg
+  | ["imgcount"] => (CMFrag.handleImg ["imgcount"]).getD bad
+  | ["imggen", s, z] => (CMFrag.handleImg ["imggen", s, z]).getD bad
+  | ["imgenum", i] => (CMFrag.handleImg ["imgenum", i]).getD bad
+  | ["model", "imggen", s, z] => (CMFrag.handleImg ["model", "imggen", s, z]).getD bad
+  | ["model", "imgenum", i] => (CMFrag.handleImg ["model", "imgenum", i]).getD bad
+  | ["spec", "imggen", s, z] => (CMFrag.handleImg ["spec", "imggen", s, z]).getD bad
+  | ["spec", "imgenum", i] => (CMFrag.handleImg ["spec", "imgenum", i]).getD bad
+  -- stage 16 (`LDoc`: paragraphs whose lines contain inline links `[t](d)`): Driver.CMFrag.handleL
+  | ["lcount"] => (CMFrag.handleL ["lcount"]).getD bad
+  | ["lgen", s, z] => (CMFrag.handleL ["lgen", s, z]).getD bad
+  | ["lenum", i] => (CMFrag.handleL ["lenum", i]).getD bad
+  | ["model", "lgen", s, z] => (CMFrag.handleL ["model", "lgen", s, z]).getD bad
+  | ["model", "lenum", i] => (CMFrag.handleL ["model", "lenum", i]).getD bad
+  | ["spec", "lgen", s, z] => (CMFrag.handleL ["spec", "lgen", s, z]).getD bad
+  | ["spec", "lenum", i] => (CMFrag.handleL ["spec", "lenum", i]).getD bad
+  -- stage 15 (a stage-13 union document inside one block quote): Driver.CMFrag.handleUQ
+  | ["uqcount"] => (CMFrag.handleUQ ["uqcount"]).getD bad
+  | ["uqgen", s, z] => (CMFrag.handleUQ ["uqgen", s, z]).getD bad
+  | ["uqenum", i] => (CMFrag.handleUQ ["uqenum", i]).getD bad
+  | ["model", "uqgen", s, z] => (CMFrag.handleUQ ["model", "uqgen", s, z]).getD bad
+  | ["model", "uqenum", i] => (CMFrag.handleUQ ["model", "uqenum", i]).getD bad
+  | ["spec", "uqgen", s, z] => (CMFrag.handleUQ ["spec", "uqgen", s, z]).getD bad
+  | ["spec", "uqenum", i] => (CMFrag.handleUQ ["spec", "uqenum", i]).getD bad
+  -- stage 14 (`k + 1` nested block quotes around a stage-6 document): Driver.CMFrag.handleNQ
+  | ["nqcount"] => (CMFrag.handleNQ ["nqcount"]).getD bad
+  | ["nqgen", s, z] => (CMFrag.handleNQ ["nqgen", s, z]).getD bad
+  | ["nqenum", i] => (CMFrag.handleNQ ["nqenum", i]).getD bad
+  | ["model", "nqgen", s, z] => (CMFrag.handleNQ ["model", "nqgen", s, z]).getD bad
+  | ["model", "nqenum", i] => (CMFrag.handleNQ ["model", "nqenum", i]).getD bad
+  | ["spec", "nqgen", s, z] => (CMFrag.handleNQ ["spec", "nqgen", s, z]).getD bad
+  | ["spec", "nqenum", i] => (CMFrag.handleNQ ["spec", "nqenum", i]).getD bad
+  -- stage 13 (`UDocS`, the union of the stages; `u…` with, `ue…` without the final line feed): Driver.CMFrag.handleU
+  | ["ucount"] => (CMFrag.handleU ["ucount"]).getD bad
+  | ["uecount"] => (CMFrag.handleU ["uecount"]).getD bad
+  | ["ugen", s, z] => (CMFrag.handleU ["ugen", s, z]).getD bad
+  | ["uenum", i] => (CMFrag.handleU ["uenum", i]).getD bad
+  | ["uegen", s, z] => (CMFrag.handleU ["uegen", s, z]).getD bad
+  | ["ueenum", i] => (CMFrag.handleU ["ueenum", i]).getD bad
+  | ["model", "ugen", s, z] => (CMFrag.handleU ["model", "ugen", s, z]).getD bad
+  | ["model", "uenum", i] => (CMFrag.handleU ["model", "uenum", i]).getD bad
+  | ["model", "uegen", s, z] => (CMFrag.handleU ["model", "uegen", s, z]).getD bad
+  | ["model", "ueenum", i] => (CMFrag.handleU ["model", "ueenum", i]).getD bad
+  | ["spec", "ugen", s, z] => (CMFrag.handleU ["spec", "ugen", s, z]).getD bad
+  | ["spec", "uenum", i] => (CMFrag.handleU ["spec", "uenum", i]).getD bad
+  | ["spec", "uegen", s, z] => (CMFrag.handleU ["spec", "uegen", s, z]).getD bad
+  | ["spec", "ueenum", i] => (CMFrag.handleU ["spec", "ueenum", i]).getD bad
+  -- stage 12 (`IDoc`, indented code blocks; `i…` with, `ie…` without the final line feed): Driver.CMFrag.handleI
+  | ["icount"] => (CMFrag.handleI ["icount"]).getD bad
+  | ["iecount"] => (CMFrag.handleI ["iecount"]).getD bad
+  | ["igen", s, z] => (CMFrag.handleI ["igen", s, z]).getD bad
+  | ["ienum", i] => (CMFrag.handleI ["ienum", i]).getD bad
+  | ["iegen", s, z] => (CMFrag.handleI ["iegen", s, z]).getD bad
+  | ["ieenum", i] => (CMFrag.handleI ["ieenum", i]).getD bad
+  | ["model", "igen", s, z] => (CMFrag.handleI ["model", "igen", s, z]).getD bad
+  | ["model", "ienum", i] => (CMFrag.handleI ["model", "ienum", i]).getD bad
+  | ["model", "iegen", s, z] => (CMFrag.handleI ["model", "iegen", s, z]).getD bad
+  | ["model", "ieenum", i] => (CMFrag.handleI ["model", "ieenum", i]).getD bad
+  | ["spec", "igen", s, z] => (CMFrag.handleI ["spec", "igen", s, z]).getD bad
+  | ["spec", "ienum", i] => (CMFrag.handleI ["spec", "ienum", i]).getD bad
+  | ["spec", "iegen", s, z] => (CMFrag.handleI ["spec", "iegen", s, z]).getD bad
+  | ["spec", "ieenum", i] => (CMFrag.handleI ["spec", "ieenum", i]).getD bad
+  | ["emcount"] => toString CMFrag.countEm
+  | ["emgen", s, z] => (CMFrag.withEmDoc CMFrag.answerEm ["emgen", s, z]).getD bad
+  | ["emenum", i] => (CMFrag.withEmDoc CMFrag.answerEm ["emenum", i]).getD bad
+  | ["model", "emgen", s, z] => (CMFrag.withEmDoc CMFrag.modelAnswerEm ["emgen", s, z]).getD bad
+  | ["model", "emenum", i] => (CMFrag.withEmDoc CMFrag.modelAnswerEm ["emenum", i]).getD bad
+  | ["spec", "emgen", s, z] => (CMFrag.withEmDoc CMFrag.specAnswerEm ["emgen", s, z]).getD bad
+  | ["spec", "emenum", i] => (CMFrag.withEmDoc CMFrag.specAnswerEm ["emenum", i]).getD bad
+  | ["rcount"] => toString CMFrag.countR
+  | ["rgen", s, z] => (CMFrag.withRDoc CMFrag.answerR ["rgen", s, z]).getD bad
+  | ["renum", i] => (CMFrag.withRDoc CMFrag.answerR ["renum", i]).getD bad
+  | ["model", "rgen", s, z] => (CMFrag.withRDoc CMFrag.modelAnswerR ["rgen", s, z]).getD bad
+  | ["model", "renum", i] => (CMFrag.withRDoc CMFrag.modelAnswerR ["renum", i]).getD bad
+  | ["spec", "rgen", s, z] => (CMFrag.withRDoc CMFrag.specAnswerR ["rgen", s, z]).getD bad
+  | ["spec", "renum", i] => (CMFrag.withRDoc CMFrag.specAnswerR ["renum", i]).getD bad
+  | ["bcount"] => toString CMFrag.countB
+  | ["bgen", s, z] => (CMFrag.withBDoc CMFrag.answerB ["bgen", s, z]).getD bad
+  | ["benum", i] => (CMFrag.withBDoc CMFrag.answerB ["benum", i]).getD bad
+  | ["model", "bgen", s, z] => (CMFrag.withBDoc CMFrag.modelAnswerB ["bgen", s, z]).getD bad
+  | ["model", "benum", i] => (CMFrag.withBDoc CMFrag.modelAnswerB ["benum", i]).getD bad
+  | ["spec", "bgen", s, z] => (CMFrag.withBDoc CMFrag.specAnswerB ["bgen", s, z]).getD bad
+  | ["spec", "benum", i] => (CMFrag.withBDoc CMFrag.specAnswerB ["benum", i]).getD bad
+  | ["qecount"] => toString CMFrag.countQ
+  | ["qegen", s, z] => (CMFrag.withQEDoc CMFrag.answerQE ["qegen", s, z]).getD bad
+  | ["qeenum", i] => (CMFrag.withQEDoc CMFrag.answerQE ["qeenum", i]).getD bad
+  | ["model", "qegen", s, z] => (CMFrag.withQEDoc CMFrag.modelAnswerQE ["qegen", s, z]).getD bad
+  | ["model", "qeenum", i] => (CMFrag.withQEDoc CMFrag.modelAnswerQE ["qeenum", i]).getD bad
+  | ["spec", "qegen", s, z] => (CMFrag.withQEDoc CMFrag.specAnswerQE ["qegen", s, z]).getD bad
+  | ["spec", "qeenum", i] => (CMFrag.withQEDoc CMFrag.specAnswerQE ["qeenum", i]).getD bad
+  | ["qcount"] => toString CMFrag.countQ
+  | ["qgen", s, z] => (CMFrag.withQDoc CMFrag.answerQ ["qgen", s, z]).getD bad
+  | ["qenum", i] => (CMFrag.withQDoc CMFrag.answerQ ["qenum", i]).getD bad
+  | ["model", "qgen", s, z] => (CMFrag.withQDoc CMFrag.modelAnswerQ ["qgen", s, z]).getD bad
+  | ["model", "qenum", i] => (CMFrag.withQDoc CMFrag.modelAnswerQ ["qenum", i]).getD bad
+  | ["spec", "qgen", s, z] => (CMFrag.withQDoc CMFrag.specAnswerQ ["qgen", s, z]).getD bad
+  | ["spec", "qenum", i] => (CMFrag.withQDoc CMFrag.specAnswerQ ["qenum", i]).getD bad
+  | ["qspell", "qgen", s, z] => (CMFrag.withQDoc CMFrag.spellAnswerQ ["qgen", s, z]).getD bad
+  | ["qspell", "qenum", i] => (CMFrag.withQDoc CMFrag.spellAnswerQ ["qenum", i]).getD bad
   | ["count"] => toString CMFrag.enumCount
   | ["gcount"] => toString CMFrag.countG
   | ["hcount"] => toString CMFrag.countH
   | ["kcount"] => toString CMFrag.countK
-  | "model" :: rest => CMFrag.withDoc CMFrag.modelAnswer CMFrag.modelAnswerG CMFrag.modelAnswerH CMFrag.modelAnswerK rest
-  | "spec" :: rest => CMFrag.withDoc CMFrag.specAnswer CMFrag.specAnswerG CMFrag.specAnswerH CMFrag.specAnswerK rest
-  | rest => CMFrag.withDoc CMFrag.answer CMFrag.answerG CMFrag.answerH CMFrag.answerK rest
+  | ["ecount"] => toString CMFrag.countK
+  | "model" :: rest => CMFrag.withDoc CMFrag.modelAnswer CMFrag.modelAnswerG CMFrag.modelAnswerH CMFrag.modelAnswerK
+      CMFrag.modelAnswerE rest
+  | "spec" :: rest => CMFrag.withDoc CMFrag.specAnswer CMFrag.specAnswerG CMFrag.specAnswerH CMFrag.specAnswerK CMFrag.specAnswerE rest
+  | rest => CMFrag.withDoc CMFrag.answer CMFrag.answerG CMFrag.answerH CMFrag.answerK CMFrag.answerE rest
 
 end Driver
